@@ -1,9 +1,9 @@
 (* Proofs/MbiRomProofs.v -- C02: every image the export model (Model/MbiModel.v with the real primitives of
-   Model/MbiRomModel.v) produces passes the checks of the independent ROM model.  Depends on MbiProofs / MbiRtProofs (C01),
+   Model/MbiRomModel.v) produces passes the checks of the independent ROM model.  Depends on MbiProofs (C01, IVT lemmas),
    CryptoProofs / SymWrapProofs (C09). *)
 From Coq Require Import ZArith NArith List Bool Lia.
 Require Import Value Bytes BytesProofs Crc Sha2 Hmac Aes Modes CryptoProofs SymWrapModel SymWrapProofs.
-Require Import MbiMixinModel GenMbi MbiModel MbiProofs MbiRtProofs MbiRomModel.
+Require Import MbiMixinModel GenMbi MbiModel MbiProofs MbiRomModel.
 Import ListNotations.
 Ltac Zify.zify_post_hook ::= Z.to_euclidean_division_equations.
 Local Open Scope nat_scope.
@@ -76,6 +76,29 @@ Proof. reflexivity. Qed.
 Lemma wr_app off w d t : off + length w <= length d -> wr off w d ++ t = firstn off d ++ w ++ (skipn (off + length w) d ++ t).
 Proof. intros H. unfold wr, splice. now rewrite <- !app_assoc. Qed.
 
+(* ------------------------------------------------------------------ small facts about the export model *)
+Lemma has_in c m : has c m = true -> In m (c_mixins c).
+Proof.
+  unfold has. intros H. apply existsb_exists in H as (m' & Hi & He). unfold mixin_eqb in He. apply Z.eqb_eq in He.
+  assert (m = m') by (destruct m, m'; try reflexivity; discriminate He). now subst.
+Qed.
+Lemma flat_cons (a : list N) t : flat (a :: t) = a ++ flat t.
+Proof. reflexivity. Qed.
+Lemma flat_app (a b : image) : flat (a ++ b) = flat a ++ flat b.
+Proof. unfold flat. apply concat_app. Qed.
+Lemma flat_tz_segment x : flat (tz_segment x) = tz_export (m_tz x).
+Proof. unfold tz_segment, flat. destruct (tz_export (m_tz x)); simpl; [reflexivity|now rewrite app_nil_r]. Qed.
+Lemma crc_write_head s t w : 40 <= length s -> crc_write (s :: t) 0 w = Some (wr OFF_CRC w s :: t).
+Proof.
+  intros H. cbn [crc_write]. replace (Nat.leb 0 OFF_CRC && Nat.leb OFF_CRC (0 + length s)) with true
+    by (symmetry; rewrite off_crc_eq; apply andb_true_iff; split; apply Nat.leb_le; lia).
+  now rewrite Nat.sub_0_r.
+Qed.
+Lemma rd32_app o (a b : list N) : o + 4 <= length a -> rd32 o (a ++ b) = rd32 o a.
+Proof. intros H. unfold rd32. f_equal. f_equal. rewrite skipn_app_le by lia. apply firstn_app_le. rewrite skipn_length. lia. Qed.
+Lemma rd32_app_r o (a b : list N) : length a <= o -> rd32 o (a ++ b) = rd32 (o - length a) b.
+Proof. intros H. unfold rd32. now rewrite skipn_app_ge by lia. Qed.
+
 (* ------------------------------------------------------------------ validate gives the per-mixin facts *)
 Lemma validate_in_mix c x l m : validate_in c x l = Ok tt -> In m l -> mix_validate c x m = Ok tt.
 Proof.
@@ -120,124 +143,8 @@ Proof.
   - reflexivity.
 Qed.
 
-(* CRC classes: application (+ TrustZone), CRC written into IVT word 0x28, total length written into word 0x20 *)
-Definition k_crc (c : mbi_class) : bool :=
-  wf_plain_crc c && nodupb (c_mixins c) && negb (has c MixinTrustZone && has c MixinTrustZoneMandatory) &&
-  prov_is c SSign (Some ExportMixinCrcSign) && prov_is c SUpdateIvt (Some MixinIvt) && ((c_type c =? 2) || (c_type c =? 5))%Z.
-
-Lemma export_crc_shape k c x img :
-  wf_plain_crc c = true -> provider c SSign = Some ExportMixinCrcSign -> 56 <= length (m_app x) -> m_table x = None ->
-  export_mbi k c x = Ok img ->
-  exists app', update_ivt c x (m_app x) (total_len c x) 0 = Ok app' /\
-    img = wr OFF_CRC (le_enc 4 (mbi_crc32_from (mbi_crc32_mpeg (firstn OFF_CRC (app' ++ tz_part c x)))
-                                               (skipn (OFF_CRC + 4) (app' ++ tz_part c x)))) app' ++ tz_part c x.
-Proof.
-  intros W PS L HT E. pose proof W as W0. unfold wf_plain_crc in W.
-  repeat (apply andb_true_iff in W as [W ?]).
-  rename H into Wd, H0 into Wc, H1 into Wt2, H2 into Wt1, H3 into Wi, H4 into Wa.
-  unfold export_mbi, export_image in E. unfold supported in E. rewrite (supported_plain _ W) in E. cbn [negb] in E.
-  destruct (validate c x) as [[]|] eqn:V; cbn [bind] in E; [|discriminate].
-  pose proof (provider_none_plain (c_mixins c) SEncrypt W) as PE. pose proof (provider_none_plain (c_mixins c) SPostEncrypt W) as PP.
-  pose proof (provider_none_plain (c_mixins c) SFinalize W) as PF. cbn in PE, PP, PF.
-  assert (CA : exists app', update_ivt c x (m_app x) (total_len c x) 0 = Ok app' /\ collect_app c x = Ok [app']).
-  { unfold collect, collect_app in *. destruct (m_app x) as [|b t] eqn:Ea; [simpl in L; lia|]. rewrite Wi in *.
-    destruct (update_ivt c x (b :: t) (total_len c x) 0) as [app'|] eqn:U.
-    - exists app'. split; [reflexivity|]. cbn [bind]. unfold reloc_segment. rewrite HT. destruct (has_attr c AAppTable); reflexivity.
-    - exfalso. destruct (provider c SCollect) as [[]|]; try discriminate Wc; cbn [bind] in E; discriminate E. }
-  destruct CA as (app' & U & CA). exists app'. split; [assumption|].
-  assert (La : length app' = length (m_app x)) by (eapply update_ivt_length; eassumption).
-  assert (COL : collect c x = Ok ([app'] ++ (if has_attr c ATrustZone then tz_segment x else []))).
-  { unfold collect. destruct (provider c SCollect) as [[]|]; try discriminate Wc; rewrite CA; cbn [bind].
-    - apply negb_true_iff in Wc. rewrite Wc. reflexivity.
-    - rewrite Wc. reflexivity. }
-  rewrite COL in E. cbn [bind] in E.
-  unfold encrypt, provider in E. rewrite PE in E. cbn [bind] in E.
-  unfold post_encrypt, provider in E. rewrite PP in E. cbn [bind] in E.
-  assert (FT : flat (if has_attr c ATrustZone then tz_segment x else []) = tz_part c x).
-  { unfold tz_part. destruct (has_attr c ATrustZone); [apply flat_tz_segment|reflexivity]. }
-  unfold MbiModel.sign in E. rewrite PS in E.
-  change ([app'] ++ (if has_attr c ATrustZone then tz_segment x else []))
-    with (app' :: (if has_attr c ATrustZone then tz_segment x else [])) in E.
-  rewrite flat_cons in E.
-  match type of E with context [crc_write _ 0 ?w] => remember w as cw eqn:Ecw end.
-  rewrite crc_write_head in E by lia.
-  cbn [bind fst snd] in E. unfold finalize, provider in E. rewrite PF in E. cbn [res_map] in E. injection E as <-.
-  subst cw. rewrite <- FT. reflexivity.
-Qed.
-
-Lemma skipn_app_len {A} (w r : list A) n : length w = n -> skipn n (w ++ r) = r.
-Proof. intros <-. apply skipn_app_exact. Qed.
-Lemma firstn_app_len {A} (w r : list A) n : length w = n -> firstn n (w ++ r) = w.
-Proof. intros <-. apply firstn_app_exact. Qed.
-
-Lemma crc_region_wr (a w t : list N) : 56 <= length a -> length w = 4 ->
-  crc_region (wr 40 w a ++ t) = firstn 40 (a ++ t) ++ skipn 44 (a ++ t) /\ slice (wr 40 w a ++ t) 40 44 = w.
-Proof.
-  intros L Lw. rewrite wr_app by lia. rewrite Lw. change (40 + 4) with 44.
-  assert (L40 : length (firstn 40 a) = 40) by (rewrite firstn_length; lia).
-  split.
-  - unfold crc_region. rewrite firstn_app_le by lia. rewrite firstn_all2 by lia.
-    rewrite skipn_app_ge by lia. rewrite L40. change (44 - 40) with 4.
-    rewrite (skipn_app_len w _ 4 Lw).
-    rewrite firstn_app_le by lia. now rewrite skipn_app_le by lia.
-  - unfold slice. rewrite (skipn_app_len _ _ 40 L40). change (44 - 40) with 4. apply firstn_app_len, Lw.
-Qed.
-
-Lemma eqb_list_refl' a : eqb_list a a = true.
-Proof. now apply eqb_list_spec. Qed.
-
-Lemma crc_ok_shape (a t : list N) : 56 <= length a ->
-  rom_crc_ok (wr 40 (le_enc 4 (mbi_crc32_from (mbi_crc32_mpeg (firstn 40 (a ++ t))) (skipn 44 (a ++ t)))) a ++ t) = true.
-Proof.
-  intros L. unfold rom_crc_ok.
-  destruct (crc_region_wr a (le_enc 4 (mbi_crc32_from (mbi_crc32_mpeg (firstn 40 (a ++ t))) (skipn 44 (a ++ t)))) t L
-              (le_enc_length _ _)) as [-> ->].
-  destruct (crc_bridge_l (firstn 40 (a ++ t)) (skipn 44 (a ++ t))) as [_ ->]. apply eqb_list_refl'.
-Qed.
-
-Lemma k_crc_facts c : k_crc c = true ->
-  wf_plain_crc c = true /\ nodupb (c_mixins c) = true /\ (has c MixinTrustZone && has c MixinTrustZoneMandatory) = false /\
-  provider c SSign = Some ExportMixinCrcSign /\ provider c SUpdateIvt = Some MixinIvt /\ (c_type c = 2 \/ c_type c = 5)%Z /\
-  has c MixinApp = true.
-Proof.
-  unfold k_crc. intros H. do 5 (apply andb_true_iff in H as [H ?]).
-  apply negb_true_iff in H3. apply prov_is_eq in H2, H1. apply orb_true_iff in H0.
-  repeat split; try assumption.
-  - destruct H0 as [E|E]; apply Z.eqb_eq in E; auto.
-  - unfold wf_plain_crc in H. repeat (apply andb_true_iff in H as [H ?]). assumption.
-Qed.
-
-Lemma rd32_land63_type c x : (0 <= c_type c < 64)%Z -> wf_input x -> Z.land (create_flags c x) 63 = c_type c.
-Proof. intros H (H1 & H2 & _). now destruct (flags_decode_lemma c x H H1 H2) as (_ & E & _). Qed.
-
-Theorem crc_ok_l k c x img cfg keys :
-  k_crc c = true -> wf_input x -> In (c_type c) (r_types cfg) -> export_mbi k c x = Ok img ->
-  rom_crc_ok img = true /\
-  rom_mbi cfg keys img = Some {| ro_plain := img; ro_msg := crc_region img; ro_obl := [] |}.
-Proof.
-  intros K WI TY E. destruct (k_crc_facts c K) as (W & ND & NB & PS & PU & CT & HA).
-  destruct (export_inv k c x img E) as (_ & V & _). pose proof (validate_app_len c x V HA) as L.
-  pose proof WI as (WI1 & WI2 & HT).
-  destruct (export_crc_shape k c x img W PS L HT E) as (app' & U & SH).
-  destruct (len_is_sum_plain_crc k c x img W ND NB L HT E) as (LEN & W32 & W36 & _).
-  assert (La : length app' = length (m_app x)) by (eapply update_ivt_length; eassumption).
-  assert (RC : rom_crc_ok img = true).
-  { rewrite SH. rewrite off_crc_eq. change (40 + 4) with 44. apply crc_ok_shape. lia. }
-  split; [exact RC|].
-  unfold rom_mbi. 
-  assert (L56 : Nat.ltb (length img) 56 = false).
-  { apply Nat.ltb_ge. rewrite SH, app_length, off_crc_eq, wr_length; rewrite ?le_enc_length; lia. }
-  rewrite L56. rewrite off_flags_eq in W36. rewrite W36.
-  assert (CT' : (0 <= c_type c < 64)%Z) by (destruct CT as [-> | ->]; lia).
-  rewrite (rd32_land63_type c x CT' WI).
-  assert (EX : existsb (Z.eqb (c_type c)) (r_types cfg) = true).
-  { apply existsb_exists. exists (c_type c). split; [assumption|apply Z.eqb_refl]. }
-  rewrite EX. cbn [negb].
-  rewrite off_len_eq, PU in W32. rewrite W32, Z.eqb_refl. cbn [negb].
-  destruct CT as [CT|CT]; rewrite CT, RC; reflexivity.
-Qed.
-
 (* ------------------------------------------------------------------ sums over a duplicate-free mixin list *)
+Definition hasl (l : list mixin) (m : mixin) : bool := existsb (mixin_eqb m) l.
 Lemma sum_single (f : mixin -> Z) a : sumz (map (fun m => if mixin_eqb m a then f m else 0%Z) all_mixins) = f a.
 Proof. destruct a; cbn; lia. Qed.
 Lemma sumz_add (f g : mixin -> Z) l : sumz (map (fun m => (f m + g m)%Z) l) = (sumz (map f l) + sumz (map g l))%Z.
@@ -291,4 +198,1046 @@ Proof.
   intros ND HT. unfold app_len. rewrite (sumz_nodup _ _ ND). unfold hz, has, hasl.
   cbn [all_mixins map sumz fold_right mix_app_len]. rewrite HT.
   rewrite ?if_same0. ring.
+Qed.
+
+(* ------------------------------------------------------------------ stages that a class does not provide *)
+Lemma encrypt_none k c x im : provider c SEncrypt = None -> encrypt k c x im = Ok im.
+Proof. intros P. unfold encrypt. now rewrite P. Qed.
+Lemma post_encrypt_none c x im : provider c SPostEncrypt = None -> post_encrypt c x im = Ok im.
+Proof. intros P. unfold post_encrypt. now rewrite P. Qed.
+Lemma finalize_none k c x im dts : provider c SFinalize = None -> finalize k c x im dts = Ok im.
+Proof. intros P. unfold finalize. now rewrite P. Qed.
+Lemma reloc_none c x start : m_table x = None -> reloc_segment c x start = Ok [].
+Proof. intros H. unfold reloc_segment. rewrite H. now destruct (has_attr c AAppTable). Qed.
+
+Definition no_auth_mixins (c : mbi_class) : bool :=
+  negb (has c MixinManifestCrc) && negb (has c MixinManifestDigest) && negb (has c MixinCertBlockV1) &&
+  negb (has c MixinCertBlockV21) && negb (has c MixinKeyStore) && negb (has c MixinHmac) && negb (has c MixinHmacMandatory).
+
+(* CRC classes: application (+ TrustZone), CRC written into IVT word 0x28, total length written into word 0x20 *)
+Definition k_crc (c : mbi_class) : bool :=
+  supported c && nodupb (c_mixins c) && has c MixinApp && has_attr c AIvtTable && no_auth_mixins c &&
+  ((prov_is c SCollect (Some ExportMixinAppTrustZone) && xorb (has c MixinTrustZone) (has c MixinTrustZoneMandatory)) ||
+   (prov_is c SCollect (Some ExportMixinApp) && negb (has c MixinTrustZone) && negb (has c MixinTrustZoneMandatory))) &&
+  prov_is c SEncrypt None && prov_is c SPostEncrypt None && prov_is c SFinalize None &&
+  prov_is c SSign (Some ExportMixinCrcSign) && prov_is c SUpdateIvt (Some MixinIvt) && ((c_type c =? 2) || (c_type c =? 5))%Z.
+Definition crc_tz (c : mbi_class) (x : mbi) : list N :=
+  if prov_is c SCollect (Some ExportMixinAppTrustZone) then tz_export (m_tz x) else [].
+
+Lemma collect_app_ok c x : 56 <= length (m_app x) -> has_attr c AIvtTable = true -> m_table x = None ->
+  forall app', update_ivt c x (m_app x) (total_len c x) 0 = Ok app' -> collect_app c x = Ok [app'].
+Proof.
+  intros L HI HT app' U. unfold collect_app. destruct (m_app x) as [|b t] eqn:Ea; [simpl in L; lia|].
+  rewrite HI, U. cbn [bind]. rewrite (reloc_none c x _ HT). reflexivity.
+Qed.
+
+Lemma export_crc_shape k c x img : k_crc c = true -> m_table x = None -> export_mbi k c x = Ok img ->
+  56 <= length (m_app x) /\
+  exists app', update_ivt c x (m_app x) (total_len c x) 0 = Ok app' /\
+    img = wr 40 (le_enc 4 (mbi_crc32_from (mbi_crc32_mpeg (firstn 40 (app' ++ crc_tz c x))) (skipn 44 (app' ++ crc_tz c x)))) app'
+          ++ crc_tz c x.
+Proof.
+  intros K HT E. unfold k_crc in K. do 11 (apply andb_true_iff in K as [K ?]).
+  rename H into KT, H0 into PU, H1 into PS, H2 into PF, H3 into PP, H4 into PE, H5 into KC, H6 into NA, H7 into HI, H8 into HA, H9 into ND.
+  apply prov_is_eq in PU, PS, PF, PP, PE.
+  destruct (export_inv k c x img E) as (_ & V & raw & enc & enc2 & sg & fin & E1 & E2 & E3 & E4 & E5 & ->).
+  pose proof (validate_app_len c x V HA) as L. split; [exact L|].
+  rewrite (encrypt_none k c x raw PE) in E2. injection E2 as <-.
+  rewrite (post_encrypt_none c x raw PP) in E3. injection E3 as <-.
+  rewrite (finalize_none k c x _ _ PF) in E5. injection E5 as <-.
+  assert (CA : exists app', update_ivt c x (m_app x) (total_len c x) 0 = Ok app' /\ raw = app' :: (match crc_tz c x with [] => [] | d => [d] end)).
+  { unfold crc_tz. unfold collect in E1. apply orb_true_iff in KC as [KC|KC].
+    - apply andb_true_iff in KC as [KC _]. rewrite KC. apply prov_is_eq in KC. rewrite KC in E1.
+      destruct (update_ivt c x (m_app x) (total_len c x) 0) as [app'|] eqn:U.
+      + rewrite (collect_app_ok c x L HI HT app' U) in E1. cbn [bind] in E1. injection E1 as <-. exists app'. split; [reflexivity|].
+        unfold tz_segment. reflexivity.
+      + exfalso. unfold collect_app in E1. destruct (m_app x) as [|b t]; [simpl in L; lia|]. rewrite HI, U in E1. discriminate E1.
+    - apply andb_true_iff in KC as [KC _]. apply andb_true_iff in KC as [KC _]. pose proof KC as KC'. apply prov_is_eq in KC. rewrite KC in E1.
+      assert (X : prov_is c SCollect (Some ExportMixinAppTrustZone) = false).
+      { unfold prov_is. rewrite KC. reflexivity. }
+      rewrite X.
+      destruct (update_ivt c x (m_app x) (total_len c x) 0) as [app'|] eqn:U.
+      + rewrite (collect_app_ok c x L HI HT app' U) in E1. injection E1 as <-. exists app'. auto.
+      + exfalso. unfold collect_app in E1. destruct (m_app x) as [|b t]; [simpl in L; lia|]. rewrite HI, U in E1. discriminate E1. }
+  destruct CA as (app' & U & ->). exists app'. split; [exact U|].
+  assert (La : length app' = length (m_app x)) by (eapply update_ivt_length; eassumption).
+  assert (FT : flat (match crc_tz c x with [] => [] | d => [d] end) = crc_tz c x).
+  { destruct (crc_tz c x); [reflexivity|]. unfold flat. simpl. now rewrite app_nil_r. }
+  unfold MbiModel.sign in E4. rewrite PS in E4. rewrite flat_cons in E4.
+  match type of E4 with context [crc_write _ 0 ?w] => remember w as cw eqn:Ecw end.
+  rewrite crc_write_head in E4 by lia. injection E4 as <-. cbn [fst]. rewrite flat_cons.
+  rewrite off_crc_eq in *. change (40 + 4) with 44 in Ecw. subst cw. f_equal; [|exact FT]. do 5 f_equal; f_equal; exact FT.
+Qed.
+
+Lemma skipn_app_len {A} (w r : list A) n : length w = n -> skipn n (w ++ r) = r.
+Proof. intros <-. apply skipn_app_exact. Qed.
+Lemma firstn_app_len {A} (w r : list A) n : length w = n -> firstn n (w ++ r) = w.
+Proof. intros <-. apply firstn_app_exact. Qed.
+
+Lemma crc_region_wr (a w t : list N) : 56 <= length a -> length w = 4 ->
+  crc_region (wr 40 w a ++ t) = firstn 40 (a ++ t) ++ skipn 44 (a ++ t) /\ slice (wr 40 w a ++ t) 40 44 = w.
+Proof.
+  intros L Lw. rewrite wr_app by lia. rewrite Lw. change (40 + 4) with 44.
+  assert (L40 : length (firstn 40 a) = 40) by (rewrite firstn_length; lia).
+  split.
+  - unfold crc_region. rewrite firstn_app_le by lia. rewrite firstn_all2 by lia.
+    rewrite skipn_app_ge by lia. rewrite L40. change (44 - 40) with 4.
+    rewrite (skipn_app_len w _ 4 Lw).
+    rewrite firstn_app_le by lia. now rewrite skipn_app_le by lia.
+  - unfold slice. rewrite (skipn_app_len _ _ 40 L40). change (44 - 40) with 4. apply firstn_app_len, Lw.
+Qed.
+
+Lemma eqb_list_refl' a : eqb_list a a = true.
+Proof. now apply eqb_list_spec. Qed.
+
+Lemma crc_ok_shape (a t : list N) : 56 <= length a ->
+  rom_crc_ok (wr 40 (le_enc 4 (mbi_crc32_from (mbi_crc32_mpeg (firstn 40 (a ++ t))) (skipn 44 (a ++ t)))) a ++ t) = true.
+Proof.
+  intros L. unfold rom_crc_ok.
+  destruct (crc_region_wr a (le_enc 4 (mbi_crc32_from (mbi_crc32_mpeg (firstn 40 (a ++ t))) (skipn 44 (a ++ t)))) t L
+              (le_enc_length _ _)) as [-> ->].
+  destruct (crc_bridge_l (firstn 40 (a ++ t)) (skipn 44 (a ++ t))) as [_ ->]. apply eqb_list_refl'.
+Qed.
+
+Lemma land63_type c x : (0 <= c_type c < 64)%Z -> wf_input x -> Z.land (create_flags c x) 63 = c_type c.
+Proof. intros H (H1 & H2 & _). now destruct (flags_decode_lemma c x H H1 H2) as (_ & E & _). Qed.
+
+Lemma hz_true c m v : has c m = true -> hz c m v = v. Proof. unfold hz. now intros ->. Qed.
+Lemma hz_false c m v : has c m = false -> hz c m v = 0%Z. Proof. unfold hz. now intros ->. Qed.
+
+Lemma crc_total_len c x : k_crc c = true -> m_table x = None -> total_len c x = (zlen (m_app x) + zlen (crc_tz c x))%Z.
+Proof.
+  intros K HT. unfold k_crc in K. do 11 (apply andb_true_iff in K as [K ?]).
+  rename H5 into KC, H6 into NA, H8 into HA, H9 into ND.
+  rewrite (total_len_expand c x ND HT). unfold no_auth_mixins in NA. do 6 (apply andb_true_iff in NA as [NA ?]).
+  repeat match goal with H : negb _ = true |- _ => apply negb_true_iff in H end.
+  rewrite (hz_true c MixinApp _ HA).
+  rewrite (hz_false c MixinManifestCrc), (hz_false c MixinManifestDigest), (hz_false c MixinCertBlockV1), (hz_false c MixinCertBlockV21),
+    (hz_false c MixinKeyStore), (hz_false c MixinHmac), (hz_false c MixinHmacMandatory) by assumption.
+  unfold crc_tz, hz, tzl. apply orb_true_iff in KC as [KC|KC].
+  - apply andb_true_iff in KC as [KC X]. rewrite KC.
+    destruct (has c MixinTrustZone), (has c MixinTrustZoneMandatory); try discriminate X; lia.
+  - apply andb_true_iff in KC as [KC X2]. apply andb_true_iff in KC as [KC X1]. apply negb_true_iff in X1, X2. rewrite X1, X2.
+    apply prov_is_eq in KC. unfold prov_is. rewrite KC. cbn. unfold zlen. simpl. lia.
+Qed.
+
+Theorem crc_ok_l k c x img cfg keys :
+  k_crc c = true -> wf_input x -> In (c_type c) (r_types cfg) -> export_mbi k c x = Ok img ->
+  rom_crc_ok img = true /\
+  rom_mbi cfg keys img = Some {| ro_plain := img; ro_msg := crc_region img; ro_obl := [] |}.
+Proof.
+  intros K WI TY E. pose proof WI as (WI1 & WI2 & HT).
+  destruct (export_crc_shape k c x img K HT E) as (L & app' & U & SH).
+  pose proof (crc_total_len c x K HT) as TL.
+  unfold k_crc in K. do 11 (apply andb_true_iff in K as [K ?]).
+  rename H into KT, H0 into PU. apply prov_is_eq in PU.
+  assert (CT : (c_type c = 2 \/ c_type c = 5)%Z).
+  { apply orb_true_iff in KT as [X|X]; apply Z.eqb_eq in X; auto. }
+  assert (La : length app' = length (m_app x)) by (eapply update_ivt_length; eassumption).
+  destruct (ivt_words c x (m_app x) (total_len c x) 0 app' L U) as (IW1 & IW2 & _ & _).
+  assert (RC : rom_crc_ok img = true) by (rewrite SH; apply crc_ok_shape; lia).
+  split; [exact RC|].
+  assert (Li : length img = length (m_app x) + length (crc_tz c x)).
+  { rewrite SH, app_length, wr_length; rewrite ?le_enc_length; lia. }
+  assert (R32 : rd32 32 img = zlen img).
+  { rewrite SH. rewrite rd32_app by (rewrite wr_length; rewrite ?le_enc_length; lia).
+    rewrite rd32_wr_other by (rewrite ?le_enc_length; lia). rewrite off_len_eq in IW1. rewrite IW1.
+    unfold ivt_total. rewrite PU, TL. rewrite <- SH. unfold zlen. rewrite Li. lia. }
+  assert (R36 : rd32 36 img = create_flags c x).
+  { rewrite SH. rewrite rd32_app by (rewrite wr_length; rewrite ?le_enc_length; lia).
+    rewrite rd32_wr_other by (rewrite ?le_enc_length; lia). rewrite off_flags_eq in IW2. exact IW2. }
+  unfold rom_mbi.
+  assert (L56 : Nat.ltb (length img) 56 = false) by (apply Nat.ltb_ge; lia).
+  rewrite L56, R36.
+  assert (CT' : (0 <= c_type c < 64)%Z) by (destruct CT as [-> | ->]; lia).
+  rewrite (land63_type c x CT' WI).
+  assert (EX : existsb (Z.eqb (c_type c)) (r_types cfg) = true).
+  { apply existsb_exists. exists (c_type c). split; [assumption|apply Z.eqb_refl]. }
+  rewrite EX. cbn [negb]. rewrite R32, Z.eqb_refl. cbn [negb].
+  destruct CT as [CT|CT]; rewrite CT, RC; reflexivity.
+Qed.
+
+(* ------------------------------------------------------------------ HMAC / key store insertion behind the 64-byte header *)
+Definition ks_bytes (x : mbi) : list N := match m_ks x with Some b => b | None => [] end.
+Lemma flat_hmac_block x hm : flat (hmac_block x hm) = hm ++ ks_bytes x.
+Proof. unfold hmac_block, ks_bytes, flat. destruct (m_ks x); simpl; now rewrite ?app_nil_r. Qed.
+Lemma between_done x hm im : forall off, hmac_insert_between x hm im off true = im.
+Proof. induction im as [|s t IH]; intros off; [reflexivity|]. cbn [hmac_insert_between]. rewrite andb_false_r. cbn [orb app]. now rewrite IH. Qed.
+Lemma offsets_past im : forall off, 64 < off -> existsb (Nat.eqb HMAC_OFF) (offsets_from im off) = false.
+Proof.
+  induction im as [|s t IH]; intros off H; [reflexivity|]. cbn [offsets_from existsb]. rewrite IH by lia.
+  change HMAC_OFF with 64. replace (Nat.eqb 64 off) with false by (symmetry; apply Nat.eqb_neq; lia). reflexivity.
+Qed.
+Lemma split_past x hm im : forall off, 64 < off -> hmac_insert_split x hm im off = im.
+Proof.
+  induction im as [|s t IH]; intros off H; [reflexivity|]. cbn [hmac_insert_split]. change HMAC_OFF with 64.
+  replace (Nat.leb off 64) with false by (symmetry; apply Nat.leb_gt; lia). cbn [andb app]. now rewrite IH by lia.
+Qed.
+
+Definition hmac_value (k : crypto) (x : mbi) (hdr : list N) : list N :=
+  match m_hmac x with Some (kb :: kt) => k_hmac k (kb :: kt) hdr | _ => [] end.
+
+Lemma finalize_hmac_flat k c x a s t dts :
+  provider c SFinalize = Some ExportMixinHmacKeyStoreFinalize -> (64 <= app_len c x)%Z -> 64 <= length a ->
+  exists fin, finalize k c x (a :: s :: t) dts = Ok fin /\
+    flat fin = firstn 64 (flat (a :: s :: t)) ++ hmac_value k x (firstn 64 (flat (a :: s :: t))) ++ ks_bytes x ++ skipn 64 (flat (a :: s :: t)).
+Proof.
+  intros PF AL La. unfold finalize. rewrite PF. change HMAC_OFF with 64. change (Z.of_nat 64) with 64%Z.
+  replace (app_len c x <? 64)%Z with false by (symmetry; apply Z.ltb_ge; lia).
+  fold (hmac_value k x (firstn 64 (flat (a :: s :: t)))). set (hm := hmac_value k x (firstn 64 (flat (a :: s :: t)))).
+  rewrite !flat_cons. cbn [offsets_from existsb]. change (Nat.eqb 64 0) with false. cbn [orb]. rewrite Nat.add_0_l.
+  destruct (Nat.eqb 64 (length a)) eqn:E64.
+  - apply Nat.eqb_eq in E64. cbn [orb]. eexists. split; [reflexivity|].
+    cbn [hmac_insert_between]. change HMAC_OFF with 64. change (Nat.eqb 0 64) with false. cbn [andb orb app]. rewrite Nat.add_0_l.
+    rewrite <- E64. rewrite Nat.eqb_refl. cbn [andb negb orb]. rewrite between_done.
+    rewrite flat_cons, flat_app, flat_hmac_block, flat_cons.
+    rewrite firstn_app_len by (symmetry; exact E64). rewrite skipn_app_len by (symmetry; exact E64).
+    now rewrite <- !app_assoc.
+  - apply Nat.eqb_neq in E64. rewrite offsets_past by lia. cbn [orb].
+    replace (existsb (Nat.eqb 64) (offsets_from t (length a + length s))) with false
+      by (symmetry; apply (offsets_past t); lia).
+    eexists. split; [reflexivity|].
+    cbn [hmac_insert_split]. change HMAC_OFF with 64. cbn [Nat.leb]. rewrite Nat.add_0_l, Nat.sub_0_r.
+    replace (Nat.ltb 64 (length a)) with true by (symmetry; apply Nat.ltb_lt; lia). cbn [andb].
+    replace (Nat.leb (length a) 64) with false by (symmetry; apply Nat.leb_gt; lia). cbn [andb].
+    rewrite (split_past x hm t) by lia.
+    rewrite !flat_app, flat_hmac_block. unfold flat at 1 2 3. cbn [concat]. rewrite !app_nil_r.
+    rewrite firstn_app_le by lia. rewrite skipn_app_le by lia. now rewrite <- !app_assoc.
+Qed.
+
+(* ------------------------------------------------------------------ ROM side: a signed image with certificate block v1 *)
+Lemma rom_cb_v1_inv cb info : rom_cb_v1 cb = Some info ->
+  32 <= length cb /\ length cb = align4 (32 + natz (rd32 28 cb) + 128) /\ c1_il info = rd32 20 cb.
+Proof.
+  unfold rom_cb_v1. intros H.
+  destruct (Nat.ltb (length cb) 32) eqn:E1; [discriminate|]. apply Nat.ltb_ge in E1.
+  destruct (negb (eqb_list (firstn 4 cb) CERT_MAGIC_B)); [discriminate|].
+  destruct (negb (rd32 8 cb =? 32)%Z); [discriminate|].
+  destruct (Nat.eqb (natz (rd32 24 cb)) 0 || Nat.ltb 4 (natz (rd32 24 cb))); [discriminate|].
+  destruct (negb (Nat.eqb (length cb) (align4 (32 + natz (rd32 28 cb) + 128)))) eqn:E2; [discriminate|].
+  apply negb_false_iff, Nat.eqb_eq in E2.
+  destruct (cb1_certs (natz (rd32 24 cb)) cb 32 (32 + natz (rd32 28 cb))) as [[cs e]|]; [|discriminate].
+  destruct (negb (Nat.eqb e (32 + natz (rd32 28 cb)))); [discriminate|]. injection H as <-. auto.
+Qed.
+
+Definition v1_obl (info : cb1_info) (msg sig : list N) : list obligation :=
+  chain_obl info ++ [ImageSig 1 (last (c1_certs info) []) msg sig].
+
+(* s = hdr-app | certificate block | trailer | signature ; trailer = TrustZone data (plain) or header copy + IV + TrustZone (encrypted) *)
+Lemma rom_v1_layout cfg keys ty (a cbb tr sig : list N) info :
+  min_off cfg ty <= length a -> rd32 40 a = zlen a -> 44 <= length a ->
+  rom_cb_v1 cbb = Some info -> c1_il info = zlen (a ++ cbb ++ tr) ->
+  sha256 (concat (c1_table info)) = rk_rkth keys ->
+  length tr = (if (ty =? 3)%Z then 72 else 0) + (if tz_custom a then r_tzsize cfg else 0) -> sig <> [] ->
+  let s := a ++ cbb ++ tr ++ sig in
+  let msg := a ++ cbb ++ tr in
+  let off := length a in let cbsize := length cbb in
+  rom_signed_v1 cfg keys ty s =
+    if (ty =? 3)%Z
+    then let plain := ctr_xcrypt (aes_enc_block (rom_image_key keys s)) (rom_iv s off cbsize) (rom_cipher s off cbsize (length msg)) in
+         if ivt_agree plain s then Some {| ro_plain := plain; ro_msg := msg; ro_obl := v1_obl info msg sig |} else None
+    else Some {| ro_plain := msg; ro_msg := msg; ro_obl := v1_obl info msg sig |}.
+Proof.
+  intros MO W40 L44 CB IL RK LT SN s msg off cbsize.
+  destruct (rom_cb_v1_inv cbb info CB) as (L32 & LCB & ILE).
+  unfold rom_signed_v1.
+  assert (O : natz (rd32 40 s) = off).
+  { unfold s. rewrite rd32_app by lia. rewrite W40. unfold natz, zlen. apply Nat2Z.id. }
+  rewrite O.
+  assert (Ls : length s = off + cbsize + length tr + length sig) by (unfold s; rewrite !app_length; lia).
+  replace (Nat.ltb off (min_off cfg ty)) with false by (symmetry; apply Nat.ltb_ge; exact MO).
+  replace (Nat.ltb (length s) (off + 32)) with false by (symmetry; apply Nat.ltb_ge; lia). cbn [orb].
+  assert (R28 : rd32 (off + 28) s = rd32 28 cbb).
+  { unfold s. rewrite rd32_app_r by lia. replace (off + 28 - length a) with 28 by lia. apply rd32_app. lia. }
+  rewrite R28. rewrite <- LCB. fold cbsize.
+  replace (Nat.ltb (length s) (off + cbsize)) with false by (symmetry; apply Nat.ltb_ge; lia).
+  assert (SL : slice s off (off + cbsize) = cbb).
+  { unfold s. apply slice_app_mid. }
+  rewrite SL, CB. rewrite RK, eqb_list_refl'. cbn [negb].
+  assert (ILn : natz (c1_il info) = length msg).
+  { rewrite IL. unfold natz, zlen, msg. apply Nat2Z.id. }
+  rewrite ILn.
+  assert (TZ : tz_custom s = tz_custom a).
+  { unfold tz_custom, rom_word, s. now rewrite rd32_app by lia. }
+  rewrite TZ.
+  assert (Lm : length msg = off + cbsize + length tr) by (unfold msg; rewrite !app_length; lia).
+  replace (Nat.eqb (length msg) (off + cbsize + (if (ty =? 3)%Z then 72 else 0) + (if tz_custom a then r_tzsize cfg else 0))) with true
+    by (symmetry; apply Nat.eqb_eq; lia).
+  assert (SG : 0 < length sig) by (destruct sig; [congruence|simpl; lia]).
+  replace (Nat.ltb (length msg) (length s)) with true by (symmetry; apply Nat.ltb_lt; lia). cbn [negb orb].
+  assert (FM : firstn (length msg) s = msg).
+  { unfold s. replace (a ++ cbb ++ tr ++ sig) with (msg ++ sig) by (unfold msg; now rewrite <- !app_assoc). apply firstn_app_exact. }
+  assert (SM : skipn (length msg) s = sig).
+  { unfold s. replace (a ++ cbb ++ tr ++ sig) with (msg ++ sig) by (unfold msg; now rewrite <- !app_assoc). apply skipn_app_exact. }
+  rewrite FM, SM. fold (v1_obl info msg sig). reflexivity.
+Qed.
+
+(* ------------------------------------------------------------------ certificate-block-v1 classes (RSA) *)
+Ltac split_andb :=
+  repeat match goal with
+         | H : (_ && _)%bool = true |- _ => apply andb_true_iff in H; destruct H
+         end.
+Ltac norm_bools :=
+  repeat match goal with
+         | H : negb _ = true |- _ => apply negb_true_iff in H
+         | H : prov_is _ _ _ = true |- _ => apply prov_is_eq in H
+         | H : (_ =? _)%Z = true |- _ => apply Z.eqb_eq in H
+         end.
+
+Definition v1_common (c : mbi_class) : bool :=
+  supported c && nodupb (c_mixins c) && has c MixinApp && has c MixinCertBlockV1 && negb (has c MixinCertBlockV21) &&
+  negb (has c MixinManifestCrc) && negb (has c MixinManifestDigest) && has c MixinTrustZone &&
+  negb (has c MixinTrustZoneMandatory) && negb (has c MixinHmac) && has_attr c ATrustZone &&
+  prov_is c SSign (Some ExportMixinRsaSign) && prov_is c SUpdateIvt (Some MixinIvt).
+(* signed XIP (LPC55S0x/1x/2x/6x, RT5xx/6xx, MCXW23x, NHS52S04) *)
+Definition k_v1 (c : mbi_class) : bool :=
+  v1_common c && prov_is c SCollect (Some ExportMixinAppTrustZoneCertBlock) && prov_is c SEncrypt None &&
+  prov_is c SPostEncrypt None && prov_is c SFinalize None && negb (has c MixinKeyStore) && negb (has c MixinHmacMandatory) &&
+  (c_type c =? 4)%Z.
+(* signed load-to-RAM with header HMAC and optional key store (RT5xx/6xx) *)
+Definition k_v1h (c : mbi_class) : bool :=
+  v1_common c && prov_is c SCollect (Some ExportMixinAppTrustZoneCertBlock) && prov_is c SEncrypt None &&
+  prov_is c SPostEncrypt None && prov_is c SFinalize (Some ExportMixinHmacKeyStoreFinalize) && has c MixinKeyStore &&
+  has c MixinHmacMandatory && has_attr c AKeyStore && (c_type c =? 1)%Z.
+(* encrypted load-to-RAM (RT5xx/6xx) *)
+Definition k_enc (c : mbi_class) : bool :=
+  v1_common c && prov_is c SCollect (Some ExportMixinAppTrustZoneCertBlockEncrypt) &&
+  prov_is c SEncrypt (Some ExportMixinAppTrustZoneCertBlockEncrypt) &&
+  prov_is c SPostEncrypt (Some ExportMixinAppTrustZoneCertBlockEncrypt) &&
+  prov_is c SFinalize (Some ExportMixinHmacKeyStoreFinalize) && has c MixinKeyStore &&
+  has c MixinHmacMandatory && has c MixinCtrInitVector && has_attr c AKeyStore && (c_type c =? 3)%Z.
+
+Definition cb_v1_ok (pre post : list N) (certs table : list (list N)) : Prop :=
+  length pre = 20 /\
+  forall w, length w = 4 ->
+    rom_cb_v1 (pre ++ w ++ post) = Some {| c1_il := rd32 20 (pre ++ w ++ post); c1_certs := certs; c1_table := table |}.
+Definition tz_ok (tzsize : nat) (x : mbi) : Prop := match m_tz x with TzCustom d => length d = tzsize | _ => True end.
+Definition hmac_len (x : mbi) : Z := match m_hmac x with Some _ => 32%Z | None => 0%Z end.
+
+Lemma v1_lens c x : v1_common c = true -> m_table x = None ->
+  total_len_for_cert c x = (zlen (m_app x) + tzl x + mix_len x MixinCertBlockV1)%Z /\
+  app_len c x = zlen (m_app x) /\
+  total_len c x = (zlen (m_app x) + tzl x + mix_len x MixinCertBlockV1 + hz c MixinKeyStore (opt_len (m_ks x)) +
+                   hz c MixinHmacMandatory (hmac_len x))%Z.
+Proof.
+  intros K HT. unfold v1_common in K. split_andb. norm_bools.
+  rewrite (total_len_for_cert_expand c x), (app_len_expand c x), (total_len_expand c x) by assumption.
+  repeat match goal with H : has c ?m = true |- _ => rewrite !(hz_true c m) by exact H; clear H end.
+  repeat match goal with H : has c ?m = false |- _ => rewrite !(hz_false c m) by exact H; clear H end.
+  repeat split; try lia. unfold hz, hmac_len. cbn [mix_len]. change (Z.of_nat HMAC_SZ) with 32%Z. destruct (m_hmac x); lia.
+Qed.
+
+Lemma cert_export_v1 pre post sg il cbb : cert_export (CertV1 pre post sg) il = Ok cbb ->
+  exists w, length w = 4 /\ Z.of_N (le_dec w) = il /\ cbb = pre ++ w ++ post /\ (0 < il)%Z.
+Proof.
+  unfold cert_export. destruct (il <=? 0)%Z eqn:E; [discriminate|]. apply Z.leb_gt in E.
+  destruct (u32 il) as [w|] eqn:U; cbn [bind]; [|discriminate]. intros H. injection H as <-.
+  exists w. split; [eapply u32_length; eassumption|]. split; [now apply u32_value in U|]. auto.
+Qed.
+
+(* the flags word tells whether TrustZone preset data is carried *)
+Lemma tz_custom_flags c x (a : list N) : (0 <= c_type c < 64)%Z -> wf_input x -> has_attr c ATrustZone = true ->
+  rd32 36 a = create_flags c x -> tz_custom a = match m_tz x with TzCustom _ => true | _ => false end.
+Proof.
+  intros CT (H1 & H2 & _) HA R. unfold tz_custom, rom_word. rewrite R.
+  destruct (flags_decode_lemma c x CT H1 H2) as (_ & _ & E & _).
+  change G_IVT_IMAGE_FLAGS_TZ_TYPE_SHIFT with 13%Z in E. change G_IVT_IMAGE_FLAGS_TZ_TYPE_MASK with 3%Z in E. rewrite E.
+  unfold has_tz. rewrite HA. cbn [orb]. destruct (m_tz x); reflexivity.
+Qed.
+Lemma tz_len_ok tzsize x : tz_ok tzsize x ->
+  length (tz_export (m_tz x)) = if (match m_tz x with TzCustom _ => true | _ => false end) then tzsize else 0.
+Proof. unfold tz_ok. destruct (m_tz x); simpl; auto. Qed.
+
+Lemma collect_v1 c x raw : v1_common c = true -> provider c SCollect = Some ExportMixinAppTrustZoneCertBlock ->
+  m_table x = None -> 56 <= length (m_app x) -> collect c x = Ok raw ->
+  exists pre post sg app' cbb, m_cert x = Some (CertV1 pre post sg) /\
+    update_ivt c x (m_app x) (total_len c x + Z.of_nat sg) (app_len c x) = Ok app' /\
+    cert_export (CertV1 pre post sg) (total_len_for_cert c x) = Ok cbb /\
+    raw = [app'; cbb] ++ tz_segment x.
+Proof.
+  intros K PC HT L E. unfold collect in E. rewrite PC in E.
+  destruct (m_app x) as [|b t] eqn:Ea; [simpl in L; lia|]. rewrite <- Ea in *.
+  destruct (m_cert x) as [[pre post sg|]|]; try discriminate E.
+  destruct (cert_export (CertV1 pre post sg) (total_len_for_cert c x)) as [cbb|] eqn:CE; cbn [bind] in E; [|discriminate].
+  destruct (update_ivt c x (m_app x) (total_len c x + Z.of_nat sg) (app_len c x)) as [app'|] eqn:U; cbn [bind] in E; [|discriminate].
+  rewrite (reloc_none c x _ HT) in E. cbn [bind] in E. injection E as <-.
+  exists pre, post, sg, app', cbb. auto.
+Qed.
+
+Lemma sign_rsa k c x raw : provider c SSign = Some ExportMixinRsaSign ->
+  MbiModel.sign k c x raw = Ok (raw ++ [k_sign k (flat raw)], flat raw).
+Proof. intros P. unfold MbiModel.sign. now rewrite P. Qed.
+Lemma flat_v1_raw app' cbb x : flat ([app'; cbb] ++ tz_segment x) = app' ++ cbb ++ tz_export (m_tz x).
+Proof. rewrite flat_app, flat_tz_segment. unfold flat. simpl. now rewrite app_nil_r, <- app_assoc. Qed.
+Lemma flat_snoc (im : image) (s : list N) : flat (im ++ [s]) = flat im ++ s.
+Proof. rewrite flat_app. unfold flat at 2. simpl. now rewrite app_nil_r. Qed.
+Lemma in_existsb_z (t : Z) l : In t l -> existsb (Z.eqb t) l = true.
+Proof. intros H. apply existsb_exists. exists t. split; [assumption|apply Z.eqb_refl]. Qed.
+
+(* facts shared by the three certificate-block-v1 kinds after the collect stage *)
+Lemma v1_words c x pre post sg app' cbb total :
+  v1_common c = true -> (c_type c = 4 \/ c_type c = 1 \/ c_type c = 3)%Z -> wf_input x -> 56 <= length (m_app x) ->
+  update_ivt c x (m_app x) total (app_len c x) = Ok app' ->
+  cert_export (CertV1 pre post sg) (total_len_for_cert c x) = Ok cbb -> length pre = 20 ->
+  length app' = length (m_app x) /\ rd32 32 app' = total /\ rd32 36 app' = create_flags c x /\ rd32 40 app' = zlen app' /\
+  Z.land (create_flags c x) 63 = c_type c /\
+  tz_custom app' = (match m_tz x with TzCustom _ => true | _ => false end) /\
+  rd32 20 cbb = total_len_for_cert c x /\
+  zlen cbb = mix_len (set_cert x (Some (CertV1 pre post sg))) MixinCertBlockV1.
+Proof.
+  intros K CT WI L U CE LP. pose proof WI as (_ & _ & HT).
+  destruct (v1_lens c x K HT) as (_ & AL & _).
+  unfold v1_common in K. split_andb. norm_bools.
+  assert (CT' : (0 <= c_type c < 64)%Z) by lia.
+  assert (La : length app' = length (m_app x)) by (eapply update_ivt_length; eassumption).
+  destruct (ivt_words c x (m_app x) total (app_len c x) app' L U) as (I1 & I2 & I3 & _).
+  rewrite off_len_eq in I1. rewrite off_flags_eq in I2. rewrite off_crc_eq in I3.
+  unfold ivt_total in I1. match goal with H : provider c SUpdateIvt = _ |- _ => rewrite H in I1 end.
+  unfold ivt_crc in I3. replace (c_type c =? 0)%Z with false in I3 by (symmetry; apply Z.eqb_neq; lia).
+  destruct (cert_export_v1 pre post sg _ cbb CE) as (w & Lw & Vw & -> & _).
+  repeat split; try assumption.
+  - rewrite I3, AL. unfold zlen. now rewrite La.
+  - now apply land63_type.
+  - apply (tz_custom_flags c x); assumption.
+  - rewrite rd32_app_r by lia. rewrite LP, Nat.sub_diag. rewrite rd32_app by lia.
+    unfold rd32. cbn [skipn]. rewrite firstn_all2 by lia. exact Vw.
+  - unfold zlen. cbn [mix_len set_cert m_cert cert_size]. rewrite !app_length, Lw. lia.
+Qed.
+
+Theorem v1_accept_l sign c x img cfg keys pre post sg certs table :
+  k_v1 c = true -> wf_input x -> m_cert x = Some (CertV1 pre post sg) -> cb_v1_ok pre post certs table ->
+  rk_rkth keys = sha256 (concat table) -> r_cb cfg = CbV1 -> In 4%Z (r_types cfg) -> tz_ok (r_tzsize cfg) x ->
+  (forall m, length (sign m) = sg) -> 0 < sg ->
+  export_mbi (real_crypto sign) c x = Ok img ->
+  exists msg, img = msg ++ sign msg /\
+    rd32 32 img = zlen img /\ rd32 (natz (rd32 40 img) + 20) img = zlen msg /\
+    rom_mbi cfg keys img =
+    Some {| ro_plain := msg; ro_msg := msg;
+            ro_obl := v1_obl {| c1_il := zlen msg; c1_certs := certs; c1_table := table |} msg (sign msg) |}.
+Proof.
+  intros K WI MC (LP & CBOK) RK RCB TY TZ SL SG E. pose proof WI as (_ & _ & HT).
+  unfold k_v1 in K. apply andb_true_iff in K as [K CT]. do 6 (apply andb_true_iff in K as [K ?]).
+  rename H into NHM, H0 into NKS, H1 into PF, H2 into PP, H3 into PE, H4 into PC. norm_bools.
+  pose proof K as K0. unfold v1_common in K0. split_andb. norm_bools.
+  destruct (export_inv _ c x img E) as (_ & V & raw & enc & enc2 & sgn & fin & E1 & E2 & E3 & E4 & E5 & ->).
+  assert (L : 56 <= length (m_app x)) by (apply (validate_app_len c x V); assumption).
+  destruct (collect_v1 c x raw K PC HT L E1) as (pre' & post' & sg' & app' & cbb & MC' & U & CE & ->).
+  rewrite MC in MC'. injection MC' as <- <- <-.
+  rewrite (encrypt_none _ c x _ PE) in E2. injection E2 as <-.
+  rewrite (post_encrypt_none c x _ PP) in E3. injection E3 as <-.
+  rewrite sign_rsa in E4 by assumption. injection E4 as <-. cbn [fst snd] in E5.
+  rewrite (finalize_none _ c x _ _ PF) in E5. injection E5 as <-.
+  change (k_sign (real_crypto sign)) with sign. rewrite !flat_cons, flat_snoc, !flat_tz_segment.
+  set (tzb := tz_export (m_tz x)). set (msg := app' ++ cbb ++ tzb).
+  replace (app' ++ cbb ++ tzb ++ sign msg) with (msg ++ sign msg) by (unfold msg; now rewrite <- !app_assoc).
+  exists msg. split; [reflexivity|].
+  destruct (v1_words c x pre post sg app' cbb _ K (or_introl CT) WI L U CE LP) as (La & R32 & R36 & R40 & T63 & TZC & R20 & LCB).
+  destruct (v1_lens c x K HT) as (TLC & AL & TL).
+  rewrite (hz_false c MixinKeyStore), (hz_false c MixinHmacMandatory) in TL by assumption.
+  replace (mix_len x MixinCertBlockV1) with (zlen cbb) in TLC, TL by (rewrite LCB; cbn [mix_len set_cert m_cert]; now rewrite MC).
+  destruct (cert_export_v1 pre post sg _ cbb CE) as (w & Lw & Vw & Ecb & _).
+  assert (Lmsg : zlen msg = total_len_for_cert c x).
+  { rewrite TLC. unfold msg, tzl, tzb. unfold zlen. rewrite !app_length, La. lia. }
+  assert (Limg : zlen (msg ++ sign msg) = (total_len c x + Z.of_nat sg)%Z).
+  { rewrite TL. unfold msg, tzl, tzb. unfold zlen. rewrite !app_length, SL, La. lia. }
+  unfold rom_mbi.
+  assert (L56 : Nat.ltb (length (msg ++ sign msg)) 56 = false).
+  { apply Nat.ltb_ge. unfold msg. rewrite !app_length. lia. }
+  rewrite L56.
+  assert (R36' : rd32 36 (msg ++ sign msg) = create_flags c x).
+  { unfold msg. rewrite <- !app_assoc. rewrite rd32_app by lia. exact R36. }
+  assert (R32' : rd32 32 (msg ++ sign msg) = zlen (msg ++ sign msg)).
+  { rewrite Limg. unfold msg. rewrite <- !app_assoc. rewrite rd32_app by lia. exact R32. }
+  split; [exact R32'|]. split.
+  { replace (msg ++ sign msg) with (app' ++ cbb ++ tzb ++ sign msg) by (unfold msg; now rewrite <- !app_assoc).
+    rewrite (rd32_app 40) by lia. rewrite R40. unfold natz, zlen at 1. rewrite Nat2Z.id.
+    rewrite rd32_app_r by lia. replace (length app' + 20 - length app') with 20 by lia.
+    destruct (cert_export_v1 pre post sg _ cbb CE) as (w0 & Lw0 & _ & Ecb0 & _).
+    rewrite rd32_app by (rewrite Ecb0, !app_length; lia). rewrite R20. now rewrite Lmsg. }
+  rewrite R36', T63, CT, (in_existsb_z 4%Z _ TY), R32', Z.eqb_refl.
+  cbv beta iota delta [Z.eqb Pos.eqb orb negb].
+  unfold rom_strip, has_hmac. cbv beta iota delta [Z.eqb Pos.eqb orb]. rewrite andb_false_r. rewrite RCB.
+  unfold msg. rewrite <- !app_assoc.
+  pose proof (CBOK w Lw) as CB1. rewrite <- Ecb in CB1.
+  rewrite (rom_v1_layout cfg keys 4%Z app' cbb tzb (sign (app' ++ cbb ++ tzb))
+             {| c1_il := rd32 20 cbb; c1_certs := certs; c1_table := table |}).
+  - cbv beta iota delta [Z.eqb Pos.eqb]. fold msg. rewrite R20, <- Lmsg. reflexivity.
+  - unfold min_off, has_hmac. cbv beta iota delta [Z.eqb Pos.eqb orb]. rewrite andb_false_r. lia.
+  - exact R40.
+  - lia.
+  - exact CB1.
+  - cbn [c1_il]. rewrite R20. fold msg. now rewrite Lmsg.
+  - cbn [c1_table]. now rewrite RK.
+  - cbv beta iota delta [Z.eqb Pos.eqb]. rewrite TZC. unfold tzb. rewrite (tz_len_ok _ x TZ). lia.
+  - intros X. pose proof (SL (app' ++ cbb ++ tzb)) as Y. rewrite X in Y. simpl in Y. lia.
+Qed.
+
+(* ------------------------------------------------------------------ header authentication (HMAC + key store) *)
+Lemma rom_digest_bytes_length c s : length (digest_bytes c s) = 8 * wbytes c.
+Proof.
+  destruct s as [[[[[[[a b] cc] d] e] f] g] h]. unfold digest_bytes. cbn [map concat].
+  rewrite !app_length, !be_enc_length. simpl. lia.
+Qed.
+Lemma rom_sha256_length m : length (sha256 m) = 32.
+Proof. unfold sha256, sha2. rewrite firstn_length, rom_digest_bytes_length. reflexivity. Qed.
+Lemma rom_sha384_length m : length (sha384 m) = 48.
+Proof. unfold sha384, sha2. rewrite firstn_length, rom_digest_bytes_length. reflexivity. Qed.
+Lemma rom_sha512_length m : length (sha512 m) = 64.
+Proof. unfold sha512, sha2. rewrite firstn_length, rom_digest_bytes_length. reflexivity. Qed.
+Lemma hmac_sha256_length k d : length (hmac_sha256 k d) = 32.
+Proof. unfold hmac_sha256, hmac_gen. apply rom_sha256_length. Qed.
+
+Lemma nlen_32 (k : list N) : length k = 32 -> nlen k = 32%N.
+Proof. intros H. unfold nlen. now rewrite H. Qed.
+(* the builder's HMAC (KeyStore.derive_hmac_key + hmac) is the ROM's: HMAC-SHA256 under AES-ECB(user key, 0^16) *)
+Lemma real_hmac_eq key hdr : length key = 32 -> real_hmac key hdr = hmac_sha256 (rom_hmac_key key) hdr.
+Proof.
+  intros L. unfold real_hmac. destruct (keystore_derivations_l key (nlen_32 key L)) as (-> & _). reflexivity.
+Qed.
+(* ... and the image key: AES-ECB(master key, 1|0^15) || AES-ECB(master key, 2|0^15) *)
+Lemma real_enc_key_eq key : length key = 32 -> SymWrapModel.derive_enc_image_key key = Ok (rom_enc_key key).
+Proof. intros L. destruct (keystore_derivations_l key (nlen_32 key L)) as (_ & -> & _). reflexivity. Qed.
+
+Lemma rom_strip_layout cfg keys ty (s hm ksb : list N) :
+  has_hmac cfg ty = true -> 64 <= length s -> hm = hmac_sha256 (rom_hmac_key (rk_user keys)) (firstn 64 s) ->
+  length ksb = (if ks_flag s then KS_SIZE else 0) ->
+  let img := firstn 64 s ++ hm ++ ksb ++ skipn 64 s in
+  firstn 64 img = firstn 64 s /\ rom_hmac_ok (rk_user keys) img = true /\ rom_strip cfg keys ty img = Some s.
+Proof.
+  intros HH L EH LK img.
+  assert (L64 : length (firstn 64 s) = 64) by (rewrite firstn_length; lia).
+  assert (LH : length hm = 32) by (subst hm; apply hmac_sha256_length).
+  assert (F : firstn 64 img = firstn 64 s) by (unfold img; now apply firstn_app_len).
+  assert (KF : ks_flag img = ks_flag s).
+  { unfold ks_flag, rom_word. f_equal. unfold img. rewrite rd32_app by lia.
+    rewrite <- (firstn_skipn 64 s) at 2. now rewrite rd32_app by lia. }
+  assert (RH : rom_hmac_ok (rk_user keys) img = true).
+  { unfold rom_hmac_ok. rewrite F, <- EH. unfold img, slice. rewrite (skipn_app_len _ _ 64 L64). change (96 - 64) with 32.
+    rewrite (firstn_app_len _ _ 32 LH). apply eqb_list_refl'. }
+  split; [exact F|]. split; [exact RH|].
+  unfold rom_strip. rewrite HH, RH. cbn [negb]. unfold strip_len. rewrite KF.
+  assert (SK : skipn (if ks_flag s then 96 + KS_SIZE else 96) img = skipn 64 s).
+  { unfold img. replace (if ks_flag s then 96 + KS_SIZE else 96) with (64 + (32 + length ksb)) by (rewrite LK; destruct (ks_flag s); reflexivity).
+    rewrite skipn_add, (skipn_app_len _ _ 64 L64), skipn_add, (skipn_app_len _ _ 32 LH). now apply skipn_app_len. }
+  assert (LI : length img = 64 + 32 + length ksb + (length s - 64)).
+  { unfold img. rewrite !app_length, L64, LH, skipn_length. lia. }
+  replace (Nat.ltb (length img) (if ks_flag s then 96 + KS_SIZE else 96)) with false
+    by (symmetry; apply Nat.ltb_ge; rewrite LI, LK; destruct (ks_flag s); lia).
+  rewrite F, SK, firstn_skipn. reflexivity.
+Qed.
+
+Lemma ks_flag_flags c x (a : list N) : (0 <= c_type c < 64)%Z -> wf_input x -> has_attr c AKeyStore = true ->
+  rd32 36 a = create_flags c x -> ks_flag a = truthy_ks (m_ks x).
+Proof.
+  intros CT (H1 & H2 & _) HA R. unfold ks_flag, zbit, rom_word. rewrite R.
+  destruct (flags_decode_lemma c x CT H1 H2) as (_ & _ & _ & _ & _ & E & _).
+  change G_KEY_STORE_FLAG with 32768%Z in E. rewrite E, HA. reflexivity.
+Qed.
+Definition ks_wf (x : mbi) : Prop := match m_ks x with Some (b :: t) => length (b :: t) = KS_SIZE | _ => True end.
+Lemma ks_len_ok x : ks_wf x -> length (ks_bytes x) = if truthy_ks (m_ks x) then KS_SIZE else 0.
+Proof. unfold ks_wf, ks_bytes, truthy_ks. destruct (m_ks x) as [[|b t]|]; auto. Qed.
+Lemma validate_hmac_key c x : validate c x = Ok tt -> has c MixinHmacMandatory = true ->
+  exists key, m_hmac x = Some key /\ length key = 32 /\ key <> [].
+Proof.
+  intros V H. pose proof (validate_mix c x MixinHmacMandatory V H) as M. cbn [mix_validate] in M.
+  destruct (m_hmac x) as [[|b k]|]; try discriminate M. exists (b :: k). split; [reflexivity|].
+  change (natz G_HMAC_KEY_LENGTH) with 32 in M.
+  destruct (Nat.eqb (length (b :: k)) 32) eqn:E; [|discriminate]. apply Nat.eqb_eq in E. split; [exact E|discriminate].
+Qed.
+
+Lemma finalize_hmac_app_len k c x im dts fin : provider c SFinalize = Some ExportMixinHmacKeyStoreFinalize ->
+  finalize k c x im dts = Ok fin -> (64 <= app_len c x)%Z.
+Proof.
+  intros PF E. unfold finalize in E. rewrite PF in E. change (Z.of_nat HMAC_OFF) with 64%Z in E.
+  destruct (app_len c x <? 64)%Z eqn:X; [discriminate|]. now apply Z.ltb_ge in X.
+Qed.
+Lemma hmac_value_real sign x key hdr : m_hmac x = Some key -> key <> [] -> length key = 32 ->
+  hmac_value (real_crypto sign) x hdr = hmac_sha256 (rom_hmac_key key) hdr.
+Proof.
+  intros H NE L. unfold hmac_value. rewrite H. destruct key as [|b t]; [congruence|]. cbn [k_hmac real_crypto].
+  now apply real_hmac_eq.
+Qed.
+
+Theorem v1h_accept_l sign c x img cfg keys pre post sg certs table :
+  k_v1h c = true -> wf_input x -> m_cert x = Some (CertV1 pre post sg) -> cb_v1_ok pre post certs table ->
+  rk_rkth keys = sha256 (concat table) -> r_cb cfg = CbV1 -> r_hmac cfg = true -> In 1%Z (r_types cfg) ->
+  tz_ok (r_tzsize cfg) x -> ks_wf x -> m_hmac x = Some (rk_user keys) ->
+  (forall m, length (sign m) = sg) -> 0 < sg ->
+  export_mbi (real_crypto sign) c x = Ok img ->
+  exists msg, let s := msg ++ sign msg in
+    img = firstn 64 s ++ hmac_sha256 (rom_hmac_key (rk_user keys)) (firstn 64 s) ++ ks_bytes x ++ skipn 64 s /\
+    firstn 64 img = firstn 64 s /\ 64 <= length msg /\
+    rom_hmac_ok (rk_user keys) img = true /\
+    rom_mbi cfg keys img =
+    Some {| ro_plain := msg; ro_msg := msg;
+            ro_obl := v1_obl {| c1_il := zlen msg; c1_certs := certs; c1_table := table |} msg (sign msg) |}.
+Proof.
+  intros K WI MC (LP & CBOK) RK RCB RH TY TZ KW MH SL SG E. pose proof WI as (_ & _ & HT).
+  unfold k_v1h in K. apply andb_true_iff in K as [K CT]. do 7 (apply andb_true_iff in K as [K ?]).
+  rename H into HAK, H0 into HHM, H1 into HKS, H2 into PF, H3 into PP, H4 into PE, H5 into PC. norm_bools.
+  pose proof K as K0. unfold v1_common in K0. split_andb. norm_bools.
+  destruct (export_inv _ c x img E) as (_ & V & raw & enc & enc2 & sgn & fin & E1 & E2 & E3 & E4 & E5 & ->).
+  assert (L : 56 <= length (m_app x)) by (apply (validate_app_len c x V); assumption).
+  destruct (validate_hmac_key c x V HHM) as (key & MH' & LK & NK). rewrite MH in MH'. injection MH' as <-.
+  destruct (collect_v1 c x raw K PC HT L E1) as (pre' & post' & sg' & app' & cbb & MC' & U & CE & ->).
+  rewrite MC in MC'. injection MC' as <- <- <-.
+  rewrite (encrypt_none _ c x _ PE) in E2. injection E2 as <-.
+  rewrite (post_encrypt_none c x _ PP) in E3. injection E3 as <-.
+  rewrite sign_rsa in E4 by assumption. injection E4 as <-. unfold fst, snd in E5.
+  change (k_sign (real_crypto sign)) with sign in E5. rewrite !flat_tz_segment in E5.
+  set (tzb := tz_export (m_tz x)) in *. set (msg := app' ++ cbb ++ tzb) in *.
+  pose proof (finalize_hmac_app_len _ c x _ _ fin PF E5) as AL64.
+  destruct (v1_words c x pre post sg app' cbb _ K (or_intror (or_introl CT)) WI L U CE LP) as (La & R32 & R36 & R40 & T63 & TZC & R20 & LCB).
+  destruct (v1_lens c x K HT) as (TLC & AL & TL).
+  assert (La64 : 64 <= length app') by (rewrite AL in AL64; unfold zlen in AL64; lia).
+  destruct (finalize_hmac_flat (real_crypto sign) c x app' cbb (tz_segment x ++ [sign msg]) msg PF AL64 La64) as (fin' & F1 & F2).
+  rewrite F1 in E5. injection E5 as <-. rewrite F2. clear F1 F2.
+  rewrite !flat_cons, flat_snoc, flat_tz_segment. fold tzb.
+  replace (app' ++ cbb ++ tzb ++ sign msg) with (msg ++ sign msg) by (unfold msg; now rewrite <- !app_assoc).
+  rewrite (hmac_value_real sign x (rk_user keys) _ MH NK LK).
+  exists msg. cbv zeta. split; [reflexivity|].
+  rewrite (hz_true c MixinKeyStore), (hz_true c MixinHmacMandatory) in TL by assumption.
+  replace (mix_len x MixinCertBlockV1) with (zlen cbb) in TLC, TL by (rewrite LCB; cbn [mix_len set_cert m_cert]; now rewrite MC).
+  destruct (cert_export_v1 pre post sg _ cbb CE) as (w & Lw & Vw & Ecb & _).
+  assert (Lmsg : zlen msg = total_len_for_cert c x).
+  { rewrite TLC. unfold msg, tzl, tzb. unfold zlen. rewrite !app_length, La. lia. }
+  set (s := msg ++ sign msg).
+  assert (Ls : 64 <= length s) by (unfold s, msg; rewrite !app_length; lia).
+  assert (R36s : rd32 36 s = create_flags c x).
+  { unfold s, msg. rewrite <- !app_assoc. rewrite rd32_app by lia. exact R36. }
+  assert (CT' : (0 <= c_type c < 64)%Z) by lia.
+  assert (KF : ks_flag s = truthy_ks (m_ks x)) by (apply (ks_flag_flags c x); assumption).
+  assert (HH : has_hmac cfg 1%Z = true) by (unfold has_hmac; rewrite RH; reflexivity).
+  destruct (rom_strip_layout cfg keys 1%Z s (hmac_sha256 (rom_hmac_key (rk_user keys)) (firstn 64 s)) (ks_bytes x) HH Ls eq_refl)
+    as (F64 & RHO & RS).
+  { rewrite KF. now apply ks_len_ok. }
+  split; [exact F64|]. split; [unfold msg; rewrite !app_length; lia|]. split; [exact RHO|].
+  set (img := firstn 64 s ++ hmac_sha256 (rom_hmac_key (rk_user keys)) (firstn 64 s) ++ ks_bytes x ++ skipn 64 s) in *.
+  assert (Limg : zlen img = (total_len c x + Z.of_nat sg)%Z).
+  { rewrite TL. unfold img, zlen, tzl, hmac_len. rewrite MH. rewrite !app_length, hmac_sha256_length, firstn_length, skipn_length.
+    unfold s, msg. rewrite !app_length, SL, La. fold tzb.
+    assert (OL : opt_len (m_ks x) = Z.of_nat (length (ks_bytes x))).
+    { unfold opt_len, ks_bytes, zlen. destruct (m_ks x); reflexivity. }
+    rewrite OL. unfold zlen. lia. }
+  assert (RI : forall o, o + 4 <= 64 -> rd32 o img = rd32 o app').
+  { intros o Ho. unfold img. rewrite rd32_app by (rewrite firstn_length; lia).
+    unfold s, msg. rewrite <- !app_assoc. rewrite firstn_app_le by lia. unfold rd32. f_equal. f_equal.
+    rewrite <- (firstn_skipn 64 app') at 2. rewrite skipn_app_le by (rewrite firstn_length; lia).
+    rewrite firstn_app_le; [reflexivity|]. rewrite skipn_length, firstn_length. lia. }
+  unfold rom_mbi.
+  assert (L56 : Nat.ltb (length img) 56 = false).
+  { apply Nat.ltb_ge. unfold img. rewrite !app_length, firstn_length. lia. }
+  rewrite L56, (RI 36) by lia. rewrite R36, T63, CT, (in_existsb_z 1%Z _ TY), (RI 32) by lia.
+  rewrite R32, <- Limg, Z.eqb_refl.
+  cbv beta iota delta [Z.eqb Pos.eqb orb negb].
+  rewrite RS, RCB. unfold s, msg. rewrite <- !app_assoc.
+  pose proof (CBOK w Lw) as CB1. rewrite <- Ecb in CB1.
+  rewrite (rom_v1_layout cfg keys 1%Z app' cbb tzb (sign (app' ++ cbb ++ tzb))
+             {| c1_il := rd32 20 cbb; c1_certs := certs; c1_table := table |}).
+  - cbv beta iota delta [Z.eqb Pos.eqb]. fold msg. rewrite R20, <- Lmsg. reflexivity.
+  - unfold min_off. rewrite HH. exact La64.
+  - exact R40.
+  - lia.
+  - exact CB1.
+  - cbn [c1_il]. rewrite R20. fold msg. now rewrite Lmsg.
+  - cbn [c1_table]. now rewrite RK.
+  - cbv beta iota delta [Z.eqb Pos.eqb]. rewrite TZC. unfold tzb. rewrite (tz_len_ok _ x TZ). lia.
+  - intros X. pose proof (SL (app' ++ cbb ++ tzb)) as Y. rewrite X in Y. simpl in Y. lia.
+Qed.
+
+
+(* ------------------------------------------------------------------ certificate-block-v2.1 classes (ECC, manifest) *)
+Definition k_v21 (c : mbi_class) : bool :=
+  supported c && nodupb (c_mixins c) && has c MixinApp && has c MixinCertBlockV21 && negb (has c MixinCertBlockV1) &&
+  xorb (has c MixinManifestCrc) (has c MixinManifestDigest) && negb (has c MixinTrustZone) &&
+  negb (has c MixinTrustZoneMandatory) && negb (has c MixinKeyStore) && negb (has c MixinHmac) &&
+  negb (has c MixinHmacMandatory) && prov_is c SCollect (Some ExportMixinAppCertBlockManifest) &&
+  prov_is c SEncrypt None && prov_is c SPostEncrypt None && prov_is c SSign (Some ExportMixinEccSign) &&
+  prov_is c SFinalize (Some ExportMixinAppCertBlockManifest) && prov_is c SUpdateIvt (Some MixinIvt) &&
+  ((c_type c =? 4) || (c_type c =? 8) || (c_type c =? 1))%Z.
+
+(* every class of the database (regenerated on every run): plain, or not modelled (BCA / cert block Vx: MC56F81xxx, MCXC),
+   or exactly one of the protected kinds the theorems quantify over *)
+Definition b2n (b : bool) : nat := if b then 1 else 0.
+Definition kind_count (c : mbi_class) : nat := b2n (k_crc c) + b2n (k_v1 c) + b2n (k_v1h c) + b2n (k_enc c) + b2n (k_v21 c).
+Definition class_covered (c : mbi_class) : bool :=
+  if negb (supported c) then Nat.eqb (kind_count c) 0
+  else if (c_type c =? 0)%Z then Nat.eqb (kind_count c) 0 else Nat.eqb (kind_count c) 1.
+Lemma kinds_cover_database_l : forallb class_covered gen_compositions = true.
+Proof. vm_compute. reflexivity. Qed.
+Definition kinds_histogram : list nat :=
+  map (fun k => length (filter k gen_compositions)) [k_crc; k_v1; k_v1h; k_enc; k_v21; (fun c => negb (supported c))].
+
+(* ------------------------------------------------------------------ projections used by the property theorems *)
+Lemma certblock_lengths_v1_l sign c x img cfg keys pre post sg certs table :
+  k_v1 c = true -> wf_input x -> m_cert x = Some (CertV1 pre post sg) -> cb_v1_ok pre post certs table ->
+  rk_rkth keys = sha256 (concat table) -> r_cb cfg = CbV1 -> In 4%Z (r_types cfg) -> tz_ok (r_tzsize cfg) x ->
+  (forall m, length (sign m) = sg) -> 0 < sg ->
+  export_mbi (real_crypto sign) c x = Ok img ->
+  exists msg, img = msg ++ sign msg /\ length (sign msg) = sg /\
+    rd32 32 img = zlen img /\ rd32 (natz (rd32 40 img) + 20) img = zlen msg.
+Proof.
+  intros K WI MC CB RK RCB TY TZ SL SG E.
+  destruct (v1_accept_l sign c x img cfg keys pre post sg certs table K WI MC CB RK RCB TY TZ SL SG E) as (msg & A & B & C & _).
+  exists msg. auto.
+Qed.
+
+Lemma crc_decompose (img : list N) : 44 <= length img -> img = firstn 40 img ++ slice img 40 44 ++ skipn 44 img.
+Proof. intros L. rewrite slice_skipn_cat by lia. symmetry. apply firstn_skipn. Qed.
+
+(* coverage: the exported file is exactly [authenticated bytes] + [authenticator fields] *)
+Lemma coverage_crc_l k c x img cfg keys :
+  k_crc c = true -> wf_input x -> In (c_type c) (r_types cfg) -> export_mbi k c x = Ok img ->
+  exists r, rom_mbi cfg keys img = Some r /\ ro_msg r = firstn 40 img ++ skipn 44 img /\
+    img = firstn 40 img ++ slice img 40 44 ++ skipn 44 img /\
+    slice img 40 44 = le_enc 4 (crc CRC32_MPEG2 (ro_msg r)).
+Proof.
+  intros K WI TY E. destruct (crc_ok_l k c x img cfg keys K WI TY E) as (RC & RM).
+  eexists. split; [exact RM|]. cbn [ro_msg]. split; [reflexivity|].
+  pose proof WI as (_ & _ & HT). destruct (export_crc_shape k c x img K HT E) as (L & app' & U & SH).
+  assert (La : length app' = length (m_app x)) by (eapply update_ivt_length; eassumption).
+  split.
+  - apply crc_decompose. rewrite SH, app_length, wr_length; rewrite ?le_enc_length; lia.
+  - unfold rom_crc_ok in RC. apply eqb_list_spec in RC. now rewrite RC.
+Qed.
+
+(* ------------------------------------------------------------------ the hypotheses are satisfiable: concrete instances *)
+Definition demo_pre : list N := [99; 101; 114; 116; 1; 0; 0; 0; 32; 0; 0; 0; 0; 0; 0; 0; 1; 0; 0; 0]%N.
+Definition demo_post : list N := ([1; 0; 0; 0; 8; 0; 0; 0; 4; 0; 0; 0; 48; 2; 5; 0] ++ zeros 128)%N.
+Definition demo_certs : list (list N) := [[48; 2; 5; 0]%N].
+Definition demo_table : list (list N) := [zeros 32; zeros 32; zeros 32; zeros 32].
+Lemma demo_cb_ok : cb_v1_ok demo_pre demo_post demo_certs demo_table.
+Proof.
+  split; [reflexivity|]. intros w Lw.
+  destruct w as [|a [|b [|cc [|d [|e t]]]]]; try discriminate Lw. vm_compute. reflexivity.
+Qed.
+Definition demo_app (n : nat) : list N := map N.of_nat (seq 1 n).
+Definition demo_x (n : nat) : mbi :=
+  {| m_app := demo_app n; m_load := 4096; m_imgver := 0; m_subtype := 0; m_fwver := 0; m_tz := TzEnabled; m_hwkey := false;
+     m_ks := None; m_hmac := None; m_iv := []; m_table := None; m_cert := None; m_digest := 0 |}.
+Definition demo_sign (sg : nat) : list N -> list N := fun m => firstn sg (sha256 m ++ zeros sg).
+Definition demo_c_crc : mbi_class := {| c_type := 5; c_mixins := [MixinApp; MixinIvt; MixinTrustZone; ExportMixinAppTrustZone; ExportMixinCrcSign] |}.
+Definition demo_c_v1 : mbi_class :=
+  {| c_type := 4; c_mixins := [MixinApp; MixinIvt; MixinTrustZone; MixinCertBlockV1; ExportMixinAppTrustZoneCertBlock; ExportMixinRsaSign] |}.
+Definition demo_c_v1h : mbi_class :=
+  {| c_type := 1; c_mixins := [MixinApp; MixinRelocTable; MixinLoadAddress; MixinIvt; MixinTrustZone; MixinCertBlockV1; MixinHmacMandatory;
+                               MixinKeyStore; MixinHwKey; ExportMixinAppTrustZoneCertBlock; ExportMixinRsaSign; ExportMixinHmacKeyStoreFinalize] |}.
+Lemma demo_wf n : wf_input (demo_x n).
+Proof. unfold wf_input, demo_x. cbn. repeat split; lia. Qed.
+Example demo_crc_instance :
+  k_crc demo_c_crc = true /\ wf_input (demo_x 60) /\ is_ok (export_mbi (real_crypto (demo_sign 0)) demo_c_crc (demo_x 60)) = true.
+Proof. split; [vm_compute; reflexivity|]. split; [apply demo_wf|vm_compute; reflexivity]. Qed.
+Example demo_v1_instance :
+  let x := set_cert (demo_x 60) (Some (CertV1 demo_pre demo_post 256)) in
+  k_v1 demo_c_v1 = true /\ wf_input x /\ tz_ok 464 x /\ (forall m, length (demo_sign 256 m) = 256) /\
+  is_ok (export_mbi (real_crypto (demo_sign 256)) demo_c_v1 x) = true.
+Proof.
+  cbv zeta. split; [vm_compute; reflexivity|]. split; [apply demo_wf|]. split; [exact I|]. split; [|vm_compute; reflexivity].
+  intros m. unfold demo_sign. rewrite firstn_length, app_length, rom_sha256_length, zeros_length. reflexivity.
+Qed.
+Example demo_v1h_instance :
+  let x := set_hmac (set_cert (demo_x 80) (Some (CertV1 demo_pre demo_post 256))) (Some (zeros 32)) in
+  k_v1h demo_c_v1h = true /\ wf_input x /\ ks_wf x /\
+  is_ok (export_mbi (real_crypto (demo_sign 256)) demo_c_v1h x) = true.
+Proof. cbv zeta. split; [vm_compute; reflexivity|]. split; [apply demo_wf|]. split; [exact I|vm_compute; reflexivity]. Qed.
+
+(* ------------------------------------------------------------------ encrypted load-to-RAM images *)
+Lemma skipn_wr off w d n : off + length w <= n -> off + length w <= length d -> skipn n (wr off w d) = skipn n d.
+Proof.
+  intros H1 H2. unfold wr, splice.
+  assert (L : length (firstn off d) = off) by (rewrite firstn_length; lia).
+  rewrite skipn_app_ge by lia. rewrite L. rewrite skipn_app_ge by lia.
+  rewrite <- skipn_add. f_equal. lia.
+Qed.
+Lemma update_ivt_tail c x d total cc d' : 56 <= length d -> update_ivt c x d total cc = Ok d' -> skipn 56 d' = skipn 56 d.
+Proof.
+  intros L H. apply update_ivt_inv in H as (wf & wt & wc & wl & H1 & H2 & H3 & H4 & ->).
+  apply u32_length in H1, H2, H3, H4.
+  destruct (ivt_chain_lengths d wf wt wc wl H1 H2 H3 H4 L) as (A1 & A2 & A3 & A4).
+  rewrite skipn_wr by lia. rewrite skipn_wr by lia. rewrite skipn_wr by lia. apply skipn_wr; lia.
+Qed.
+Lemma nth_slice (l : list N) a b i : i < b - a -> nth i (slice l a b) 0%N = nth (a + i) l 0%N.
+Proof. intros H. unfold slice. rewrite nth_firstn'. replace (i <? b - a) with true by (symmetry; apply Nat.ltb_lt; lia). apply nth_skipn'. Qed.
+(* the four header words depend on the class, the settings, the total length and the cert offset only *)
+Lemma update_ivt_same_words c x d1 d2 total cc d1' d2' : 56 <= length d1 -> 56 <= length d2 ->
+  update_ivt c x d1 total cc = Ok d1' -> update_ivt c x d2 total cc = Ok d2' ->
+  slice d1' 32 44 = slice d2' 32 44 /\ slice d1' 52 56 = slice d2' 52 56.
+Proof.
+  intros L1 L2 U1 U2. pose proof (update_ivt_length _ _ _ _ _ _ L1 U1) as N1. pose proof (update_ivt_length _ _ _ _ _ _ L2 U2) as N2.
+  apply update_ivt_inv in U1 as (wf & wt & wc & wl & H1 & H2 & H3 & H4 & E1).
+  apply update_ivt_inv in U2 as (wf' & wt' & wc' & wl' & H1' & H2' & H3' & H4' & E2).
+  rewrite H1 in H1'. rewrite H2 in H2'. rewrite H3 in H3'. rewrite H4 in H4'.
+  injection H1' as <-. injection H2' as <-. injection H3' as <-. injection H4' as <-.
+  apply u32_length in H1, H2, H3, H4.
+  destruct (ivt_chain_lengths d1 wf wt wc wl H1 H2 H3 H4 L1) as (A1 & A2 & A3 & A4).
+  destruct (ivt_chain_lengths d2 wf wt wc wl H1 H2 H3 H4 L2) as (B1 & B2 & B3 & B4).
+  split; apply list_eq_nth; rewrite ?slice_length' by lia; try reflexivity; intros i Hi; rewrite !nth_slice by lia;
+    rewrite E1, E2; repeat (rewrite nth_wr by lia); rewrite H1, H2, H3, H4; decide_ltb; try reflexivity; lia.
+Qed.
+
+Definition ks_nonempty (x : mbi) : Prop := match m_ks x with Some [] => False | _ => True end.
+Lemma okb_block1 : okb (1%N :: zeros 15) /\ okb (2%N :: zeros 15).
+Proof. split; split; try reflexivity; repeat constructor. Qed.
+Lemma rom_enc_key_ok key : length key = 32 -> wf_bytes key ->
+  aes_key_ok (rom_enc_key key) = true /\ wf_bytes (rom_enc_key key).
+Proof.
+  intros L W. assert (K : aes_key_ok key = true) by (unfold aes_key_ok; rewrite L; reflexivity).
+  destruct okb_block1 as [O1 O2].
+  pose proof (aes_E_ok key K W (1%N :: zeros 15) O1) as X1. pose proof (aes_E_ok key K W (2%N :: zeros 15) O2) as X2.
+  destruct X1 as [L1 W1]. destruct X2 as [L2 W2].
+  unfold rom_enc_key, aes_enc_block. change (cipher_rks (key_expansion key)) with (aesE key).
+  split; [unfold aes_key_ok; rewrite app_length, L1, L2; reflexivity|now apply wf_bytes_app].
+Qed.
+(* the builder's AES-CTR under the (derived) key, and the ROM's decryption of it *)
+Lemma real_ctr_roundtrip (key : list N) (derive : bool) (iv p : list N) : length key = 32 -> wf_bytes key -> length iv = 16 ->
+  let k' := if derive then rom_enc_key key else key in
+  real_ctr key derive iv p = ctr_xcrypt (aes_enc_block k') iv p /\
+  length (real_ctr key derive iv p) = length p /\
+  ctr_xcrypt (aes_enc_block k') iv (real_ctr key derive iv p) = p.
+Proof.
+  intros L W LI k'. assert (K : aes_key_ok key = true) by (unfold aes_key_ok; rewrite L; reflexivity).
+  assert (K' : aes_key_ok k' = true /\ wf_bytes k').
+  { unfold k'. destruct derive; [now apply rom_enc_key_ok|auto]. }
+  destruct K' as [K1 K2].
+  assert (E : real_ctr key derive iv p = ctr_xcrypt (aes_enc_block k') iv p).
+  { unfold real_ctr. replace (if derive then match SymWrapModel.derive_enc_image_key key with Ok k => k | Err _ => [] end else key) with k'
+      by (unfold k'; destruct derive; [now rewrite real_enc_key_eq|reflexivity]).
+    unfold aes_ctr_crypt. rewrite K1, LI. reflexivity. }
+  split; [exact E|]. rewrite E. change (aes_enc_block k') with (aesE k'). split.
+  - apply ctr_length; [apply (aes_E_len k' K1 K2)|exact LI].
+  - apply ctr_involutive_l; [apply (aes_E_len k' K1 K2)|exact LI].
+Qed.
+
+Lemma collect_enc c x raw : provider c SCollect = Some ExportMixinAppTrustZoneCertBlockEncrypt ->
+  m_table x = None -> 56 <= length (m_app x) -> collect c x = Ok raw ->
+  exists pre post sg app_p, m_cert x = Some (CertV1 pre post sg) /\
+    update_ivt c x (m_app x) (total_len c x + Z.of_nat sg + 56 + 16) (app_len c x) = Ok app_p /\
+    raw = [app_p] ++ tz_segment x.
+Proof.
+  intros PC HT L E. unfold collect in E. rewrite PC in E.
+  destruct (m_app x) as [|b t] eqn:Ea; [simpl in L; lia|]. rewrite <- Ea in *.
+  destruct (m_cert x) as [[pre post sg|]|]; try discriminate E.
+  destruct (update_ivt c x (m_app x) (total_len c x + Z.of_nat sg + 56 + 16) (app_len c x)) as [app_p|] eqn:U; cbn [bind] in E; [|discriminate].
+  rewrite (reloc_none c x _ HT) in E. cbn [bind] in E. injection E as <-.
+  exists pre, post, sg, app_p. auto.
+Qed.
+Lemma validate_iv c x : validate c x = Ok tt -> has c MixinCtrInitVector = true -> length (m_iv x) = 16.
+Proof.
+  intros V H. pose proof (validate_mix c x MixinCtrInitVector V H) as M. cbn [mix_validate] in M.
+  change IV_SZ with 16 in M. destruct (Nat.eqb (length (m_iv x)) 16) eqn:E; [|discriminate]. now apply Nat.eqb_eq in E.
+Qed.
+Lemma post_encrypt_enc c x pre post sg (C : list N) enc2 :
+  provider c SPostEncrypt = Some ExportMixinAppTrustZoneCertBlockEncrypt -> m_cert x = Some (CertV1 pre post sg) ->
+  post_encrypt c x [C] = Ok enc2 ->
+  exists enc_ivt cbb,
+    update_ivt c x (firstn 64 C) (total_len c x + Z.of_nat sg + 56 + 16) (app_len c x) = Ok enc_ivt /\
+    cert_export (CertV1 pre post sg) (zlen C + Z.of_nat (cert_size (CertV1 pre post sg)) + 56 + zlen (m_iv x)) = Ok cbb /\
+    enc2 = [enc_ivt; slice C 64 (natz (app_len c x)); cbb; firstn 56 C; m_iv x]
+           ++ (match tz_export (m_tz x) with [] => [] | _ => [skipn (natz (app_len c x)) C] end).
+Proof.
+  intros PP MC E. unfold post_encrypt in E. rewrite PP, MC in E. change HMAC_OFF with 64 in E.
+  replace (flat [C]) with C in E by (unfold flat; simpl; now rewrite app_nil_r).
+  destruct (update_ivt c x (firstn 64 C) (total_len c x + Z.of_nat sg + 56 + 16) (app_len c x)) as [enc_ivt|] eqn:U; cbn [bind] in E; [|discriminate].
+  destruct (cert_export (CertV1 pre post sg) (zlen C + Z.of_nat (cert_size (CertV1 pre post sg)) + 56 + zlen (m_iv x))) as [cbb|] eqn:CE;
+    cbn [bind] in E; [|discriminate].
+  injection E as <-. exists enc_ivt, cbb. auto.
+Qed.
+
+Lemma firstn_plus {A} (l : list A) a b : firstn (a + b) l = firstn a l ++ firstn b (skipn a l).
+Proof. revert l; induction a as [|a IH]; intros l; [reflexivity|]. destruct l as [|h l]; [now rewrite !firstn_nil|]. simpl. now rewrite IH. Qed.
+Lemma slice_cat {A} (l : list A) i j k : i <= j -> j <= k -> slice l i j ++ slice l j k = slice l i k.
+Proof.
+  intros H1 H2. unfold slice.
+  assert (X : skipn j l = skipn (j - i) (skipn i l)) by (rewrite <- skipn_add; f_equal; lia). rewrite X.
+  replace (k - i) with ((j - i) + (k - j)) by lia. now rewrite firstn_plus.
+Qed.
+
+(* the ROM reassembles the ciphertext: encrypted header copy | rest of the first 64 bytes | body | encrypted TrustZone *)
+Lemma rom_enc_layout (C enc_ivt cbb iv sig : list N) alen :
+  64 <= alen -> alen <= length C -> length enc_ivt = 64 -> skipn 56 enc_ivt = slice C 56 64 -> length iv = 16 ->
+  let a := enc_ivt ++ slice C 64 alen in
+  let tr := firstn 56 C ++ iv ++ skipn alen C in
+  let s := a ++ cbb ++ tr ++ sig in
+  length a = alen /\ length tr = 72 + (length C - alen) /\
+  rom_cipher s alen (length cbb) (length (a ++ cbb ++ tr)) = C /\ rom_iv s alen (length cbb) = iv.
+Proof.
+  intros H1 H2 LE SK LI a tr s.
+  assert (La : length a = alen) by (unfold a; rewrite app_length, LE, slice_length'; lia).
+  assert (L56 : length (firstn 56 C) = 56) by (rewrite firstn_length; lia).
+  assert (Lt : length tr = 72 + (length C - alen)) by (unfold tr; rewrite !app_length, L56, LI, skipn_length; lia).
+  split; [exact La|]. split; [exact Lt|].
+  assert (S1 : forall i j, slice s (alen + length cbb + i) (alen + length cbb + j) = slice (tr ++ sig) i j).
+  { intros i j. unfold s. rewrite slice_app_r by lia. rewrite La.
+    replace (alen + length cbb + i - alen) with (length cbb + i) by lia. replace (alen + length cbb + j - alen) with (length cbb + j) by lia.
+    rewrite slice_app_r by lia. f_equal; lia. }
+  split.
+  - unfold rom_cipher.
+    replace (alen + length cbb) with (alen + length cbb + 0) at 1 by lia. rewrite S1.
+    replace (length (a ++ cbb ++ tr)) with (alen + length cbb + length tr) by (rewrite !app_length, La; lia). rewrite S1.
+    rewrite slice_0. rewrite firstn_app_le by lia. unfold tr at 1. rewrite (firstn_app_len _ _ 56 L56).
+    rewrite slice_app_l by lia. rewrite slice_all.
+    assert (T72 : skipn 72 tr = skipn alen C).
+    { unfold tr. change 72 with (56 + 16). rewrite skipn_add, (skipn_app_len _ _ 56 L56). now apply skipn_app_len. }
+    rewrite T72.
+    assert (S2 : slice s 56 alen = slice C 56 alen).
+    { unfold s. rewrite slice_app_l by lia. rewrite <- La at 1. rewrite slice_all. unfold a. rewrite skipn_app_le by lia.
+      rewrite SK. apply slice_cat; lia. }
+    rewrite S2. rewrite app_assoc, firstn_slice_cat by lia. apply firstn_skipn.
+  - unfold rom_iv. rewrite (S1 56 72). rewrite slice_app_l by lia. unfold tr, slice.
+    rewrite (skipn_app_len _ _ 56 L56). change (72 - 56) with 16. now apply firstn_app_len.
+Qed.
+
+Theorem enc_accept_l sign c x img cfg keys pre post sg certs table :
+  k_enc c = true -> wf_input x -> m_cert x = Some (CertV1 pre post sg) -> cb_v1_ok pre post certs table ->
+  rk_rkth keys = sha256 (concat table) -> r_cb cfg = CbV1 -> r_hmac cfg = true -> In 3%Z (r_types cfg) ->
+  tz_ok (r_tzsize cfg) x -> ks_wf x -> ks_nonempty x -> m_hmac x = Some (rk_user keys) -> wf_bytes (rk_user keys) ->
+  (forall m, length (sign m) = sg) -> 0 < sg ->
+  export_mbi (real_crypto sign) c x = Ok img ->
+  exists raw msg, let s := msg ++ sign msg in
+    collect c x = Ok raw /\
+    img = firstn 64 s ++ hmac_sha256 (rom_hmac_key (rk_user keys)) (firstn 64 s) ++ ks_bytes x ++ skipn 64 s /\
+    rom_hmac_ok (rk_user keys) img = true /\
+    rom_mbi cfg keys img =
+    Some {| ro_plain := flat raw; ro_msg := msg;
+            ro_obl := v1_obl {| c1_il := zlen msg; c1_certs := certs; c1_table := table |} msg (sign msg) |}.
+Proof.
+  intros K WI MC (LP & CBOK) RK RCB RH TY TZ KW KN MH WK SL SG E. pose proof WI as (_ & _ & HT).
+  unfold k_enc in K. apply andb_true_iff in K as [K CT]. do 8 (apply andb_true_iff in K as [K ?]).
+  rename H into HAK, H0 into HIV, H1 into HHM, H2 into HKS, H3 into PF, H4 into PP, H5 into PE, H6 into PC. norm_bools.
+  pose proof K as K0. unfold v1_common in K0. split_andb. norm_bools.
+  destruct (export_inv _ c x img E) as (_ & V & raw & enc & enc2 & sgn & fin & E1 & E2 & E3 & E4 & E5 & ->).
+  assert (L : 56 <= length (m_app x)) by (apply (validate_app_len c x V); assumption).
+  destruct (validate_hmac_key c x V HHM) as (key & MH' & LK & NK). rewrite MH in MH'. injection MH' as <-.
+  pose proof (validate_iv c x V HIV) as LIV.
+  destruct (collect_enc c x raw PC HT L E1) as (pre' & post' & sg' & app_p & MC' & U & ->).
+  rewrite MC in MC'. injection MC' as <- <- <-.
+  exists ([app_p] ++ tz_segment x).
+  (* encrypt *)
+  unfold encrypt in E2. rewrite PE, MH in E2.
+  destruct (rk_user keys) as [|kb kt] eqn:EK; [congruence|]. rewrite <- EK in *.
+  destruct (m_iv x) as [|ib it] eqn:EI; [simpl in LIV; lia|]. rewrite <- EI in *.
+  rewrite EK in E2. rewrite <- EK in E2. injection E2 as <-.
+  change (k_ctr (real_crypto sign)) with real_ctr in E3. rewrite ?flat_cons, ?flat_tz_segment in E3.
+  replace (flat ([app_p] ++ tz_segment x)) with (app_p ++ tz_export (m_tz x)) in * by (rewrite flat_app, flat_tz_segment; unfold flat; simpl; now rewrite app_nil_r).
+  set (tzb := tz_export (m_tz x)) in *. set (P := app_p ++ tzb) in *.
+  set (derive := enc_derive x) in *.
+  destruct (real_ctr_roundtrip (rk_user keys) derive (m_iv x) P LK WK LIV) as (_ & LC & RT).
+  set (C := real_ctr (rk_user keys) derive (m_iv x) P) in *.
+  destruct (post_encrypt_enc c x pre post sg C enc2 PP MC E3) as (enc_ivt & cbb & U2 & CE & ->).
+  rewrite sign_rsa in E4 by assumption. injection E4 as <-. unfold fst, snd in E5.
+  change (k_sign (real_crypto sign)) with sign in E5.
+  pose proof (finalize_hmac_app_len _ c x _ _ fin PF E5) as AL64.
+  destruct (v1_lens c x K HT) as (TLC & AL & TL).
+  assert (Lap : length app_p = length (m_app x)) by (eapply update_ivt_length; eassumption).
+  set (alen := natz (app_len c x)) in *.
+  assert (ALn : alen = length (m_app x)) by (unfold alen, natz; rewrite AL; unfold zlen; apply Nat2Z.id).
+  assert (A64 : 64 <= alen) by (rewrite ALn; rewrite AL in AL64; unfold zlen in AL64; lia).
+  assert (LCn : length C = alen + length tzb) by (rewrite LC; unfold P; rewrite app_length; lia).
+  assert (LF : 56 <= length (firstn 64 C)) by (rewrite firstn_length; lia).
+  assert (Lei : length enc_ivt = 64).
+  { rewrite (update_ivt_length _ _ _ _ _ _ LF U2), firstn_length. lia. }
+  assert (SK : skipn 56 enc_ivt = slice C 56 64).
+  { rewrite (update_ivt_tail _ _ _ _ _ _ LF U2). unfold slice. rewrite <- (firstn_skipn 56 C) at 1.
+    rewrite firstn_app_ge by (rewrite firstn_length; lia). rewrite firstn_length. replace (Nat.min 56 (length C)) with 56 by lia.
+    rewrite skipn_app_len by (rewrite firstn_length; lia). reflexivity. }
+  (* the sub-image list handed to finalize *)
+  set (tail := match tzb with [] => [] | _ :: _ => [skipn alen C] end) in *.
+  assert (FTl : flat tail = skipn alen C).
+  { unfold tail. destruct tzb as [|t0 tt] eqn:Etz; [|unfold flat; simpl; now rewrite app_nil_r].
+    unfold flat. simpl. symmetry. apply skipn_all2. simpl in LCn. lia. }
+  set (a := enc_ivt ++ slice C 64 alen). set (tr := firstn 56 C ++ m_iv x ++ skipn alen C).
+  set (msg := a ++ cbb ++ tr).
+  assert (FE : flat ([enc_ivt; slice C 64 alen; cbb; firstn 56 C; m_iv x] ++ tail) = msg).
+  { rewrite flat_app, FTl. unfold flat. cbn [concat]. rewrite app_nil_r. unfold msg, a, tr. now rewrite <- !app_assoc. }
+  rewrite FE in E5.
+  change (([enc_ivt; slice C 64 alen; cbb; firstn 56 C; m_iv x] ++ tail) ++ [sign msg])
+    with (enc_ivt :: slice C 64 alen :: ([cbb; firstn 56 C; m_iv x] ++ tail) ++ [sign msg]) in E5.
+  assert (Le64 : 64 <= length enc_ivt) by lia.
+  destruct (finalize_hmac_flat (real_crypto sign) c x enc_ivt (slice C 64 alen) (([cbb; firstn 56 C; m_iv x] ++ tail) ++ [sign msg]) msg PF AL64 Le64)
+    as (fin' & F1 & F2).
+  rewrite F1 in E5. injection E5 as <-. rewrite F2. clear F1 F2.
+  assert (FS : flat (enc_ivt :: slice C 64 alen :: ([cbb; firstn 56 C; m_iv x] ++ tail) ++ [sign msg]) = msg ++ sign msg).
+  { rewrite !flat_cons, flat_snoc, flat_app, FTl. unfold flat. cbn [concat]. rewrite app_nil_r.
+    unfold msg, a, tr. now rewrite <- !app_assoc. }
+  rewrite FS. rewrite (hmac_value_real sign x (rk_user keys) _ MH NK LK).
+  exists msg. cbv zeta. split; [reflexivity|]. split; [reflexivity|].
+  (* lengths and header words *)
+  destruct (rom_enc_layout C enc_ivt cbb (m_iv x) (sign msg) alen A64 ltac:(lia) Lei SK LIV) as (La & Ltr & RCIPH & RIV).
+  fold a tr in La, Ltr, RCIPH, RIV. fold msg in RCIPH.
+  destruct (ivt_words c x (firstn 64 C) _ (app_len c x) enc_ivt LF U2) as (I1 & I2 & I3 & _).
+  rewrite off_len_eq in I1. rewrite off_flags_eq in I2. rewrite off_crc_eq in I3.
+  unfold ivt_total in I1. match goal with H : provider c SUpdateIvt = _ |- _ => rewrite H in I1 end.
+  unfold ivt_crc in I3. replace (c_type c =? 0)%Z with false in I3 by (symmetry; apply Z.eqb_neq; lia).
+  assert (CT' : (0 <= c_type c < 64)%Z) by lia.
+  assert (T63 : Z.land (create_flags c x) 63 = c_type c) by (now apply land63_type).
+  assert (Ra : forall o, o + 4 <= 64 -> rd32 o a = rd32 o enc_ivt) by (intros o Ho; unfold a; apply rd32_app; lia).
+  assert (TZC : tz_custom a = match m_tz x with TzCustom _ => true | _ => false end).
+  { apply (tz_custom_flags c x); try assumption. rewrite Ra by lia. exact I2. }
+  destruct (cert_export_v1 pre post sg _ cbb CE) as (w & Lw & Vw & Ecb & _).
+  assert (Lcb : zlen cbb = Z.of_nat (cert_size (CertV1 pre post sg))).
+  { unfold zlen. rewrite Ecb. cbn [cert_size]. rewrite !app_length, Lw. lia. }
+  assert (R20 : rd32 20 cbb = zlen msg).
+  { rewrite Ecb. rewrite rd32_app_r by lia. rewrite LP, Nat.sub_diag. rewrite rd32_app by lia.
+    unfold rd32. cbn [skipn]. rewrite firstn_all2 by lia. rewrite Vw.
+    unfold msg. unfold zlen. rewrite !app_length, La, Ltr, LCn. rewrite <- Lcb. unfold zlen. rewrite LIV. lia. }
+  set (s := msg ++ sign msg).
+  assert (Ls : 64 <= length s) by (unfold s, msg; rewrite !app_length; lia).
+  assert (Rs : forall o, o + 4 <= 64 -> rd32 o s = rd32 o enc_ivt).
+  { intros o Ho. unfold s, msg. rewrite <- !app_assoc. rewrite rd32_app by lia. now apply Ra. }
+  assert (KF : ks_flag s = truthy_ks (m_ks x)).
+  { apply (ks_flag_flags c x); try assumption. rewrite Rs by lia. exact I2. }
+  assert (HH : has_hmac cfg 3%Z = true) by (unfold has_hmac; rewrite RH; reflexivity).
+  destruct (rom_strip_layout cfg keys 3%Z s (hmac_sha256 (rom_hmac_key (rk_user keys)) (firstn 64 s)) (ks_bytes x) HH Ls eq_refl)
+    as (F64 & RHO & RS).
+  { rewrite KF. now apply ks_len_ok. }
+  split; [exact RHO|].
+  set (img := firstn 64 s ++ hmac_sha256 (rom_hmac_key (rk_user keys)) (firstn 64 s) ++ ks_bytes x ++ skipn 64 s) in *.
+  rewrite (hz_true c MixinKeyStore), (hz_true c MixinHmacMandatory) in TL by assumption.
+  assert (Limg : zlen img = (total_len c x + Z.of_nat sg + 56 + 16)%Z).
+  { rewrite TL. unfold img, zlen, tzl, hmac_len. rewrite MH. rewrite !app_length, hmac_sha256_length, firstn_length, skipn_length.
+    unfold s, msg. rewrite !app_length, SL, La, Ltr, LCn. fold tzb. cbn [mix_len]. rewrite MC.
+    assert (OL : opt_len (m_ks x) = Z.of_nat (length (ks_bytes x))).
+    { unfold opt_len, ks_bytes, zlen. destruct (m_ks x); reflexivity. }
+    rewrite OL. unfold zlen in Lcb. rewrite <- Lcb. rewrite ALn. unfold zlen. lia. }
+  assert (RI : forall o, o + 4 <= 64 -> rd32 o img = rd32 o enc_ivt).
+  { intros o Ho. unfold img. rewrite rd32_app by (rewrite firstn_length; lia).
+    rewrite <- (Rs o Ho). unfold rd32. f_equal. f_equal.
+    rewrite <- (firstn_skipn 64 s) at 2. rewrite skipn_app_le by (rewrite firstn_length; lia).
+    rewrite firstn_app_le; [reflexivity|]. rewrite skipn_length, firstn_length. lia. }
+  unfold rom_mbi.
+  assert (L56 : Nat.ltb (length img) 56 = false).
+  { apply Nat.ltb_ge. unfold img. rewrite !app_length, firstn_length. lia. }
+  rewrite L56, (RI 36) by lia. rewrite I2, T63, CT, (in_existsb_z 3%Z _ TY), (RI 32) by lia.
+  rewrite I1, <- Limg, Z.eqb_refl.
+  cbv beta iota delta [Z.eqb Pos.eqb orb negb].
+  rewrite RS, RCB. unfold s, msg. rewrite <- !app_assoc.
+  pose proof (CBOK w Lw) as CB1. rewrite <- Ecb in CB1.
+  rewrite (rom_v1_layout cfg keys 3%Z a cbb tr (sign (a ++ cbb ++ tr))
+             {| c1_il := rd32 20 cbb; c1_certs := certs; c1_table := table |}).
+  - cbv beta iota delta [Z.eqb Pos.eqb]. cbv zeta. fold msg. rewrite La, RCIPH, RIV.
+    (* the ROM's image key is the builder's *)
+    assert (KEY : rom_image_key keys (a ++ cbb ++ tr ++ sign msg) = (if derive then rom_enc_key (rk_user keys) else rk_user keys)).
+    { unfold rom_image_key. replace (a ++ cbb ++ tr ++ sign msg) with s by (unfold s, msg; now rewrite <- !app_assoc).
+      rewrite KF. unfold derive, enc_derive, ks_truthy_obj, truthy_ks. unfold ks_nonempty in KN.
+      destruct (m_ks x) as [[|b0 t0]|]; [contradiction|reflexivity|reflexivity]. }
+    rewrite KEY, RT.
+    assert (IA : ivt_agree P (a ++ cbb ++ tr ++ sign msg) = true).
+    { unfold ivt_agree.
+      destruct (update_ivt_same_words c x (m_app x) (firstn 64 C) _ _ app_p enc_ivt L LF U U2) as (W1 & W2).
+      assert (X1 : slice P 32 44 = slice app_p 32 44) by (unfold P; apply slice_app_l; lia).
+      assert (X2 : slice P 52 56 = slice app_p 52 56) by (unfold P; apply slice_app_l; lia).
+      assert (Y1 : slice (a ++ cbb ++ tr ++ sign msg) 32 44 = slice enc_ivt 32 44).
+      { rewrite slice_app_l by lia. unfold a. apply slice_app_l. lia. }
+      assert (Y2 : slice (a ++ cbb ++ tr ++ sign msg) 52 56 = slice enc_ivt 52 56).
+      { rewrite slice_app_l by lia. unfold a. apply slice_app_l. lia. }
+      rewrite X1, X2, Y1, Y2, W1, W2, !eqb_list_refl'. reflexivity. }
+    rewrite IA. rewrite R20. reflexivity.
+  - unfold min_off. rewrite HH. lia.
+  - rewrite Ra by lia. rewrite I3, AL. unfold zlen. now rewrite La, ALn.
+  - lia.
+  - exact CB1.
+  - cbn [c1_il]. exact R20.
+  - cbn [c1_table]. now rewrite RK.
+  - cbv beta iota delta [Z.eqb Pos.eqb]. rewrite TZC, Ltr, LCn. unfold tzb. rewrite (tz_len_ok _ x TZ). lia.
+  - intros X. pose proof (SL (a ++ cbb ++ tr)) as Y. rewrite X in Y. simpl in Y. lia.
 Qed.
